@@ -311,3 +311,1513 @@ Section SMapP.
     - right. apply IH, H.
   Qed.
 End SMapP.
+
+(* ====================================================================== *)
+(* C. the image of the live channels                                       *)
+(* ====================================================================== *)
+Notation kfind := (sfind key_cmp).
+Notation ksorted := (sorted key_cmp).
+Notation klb := (lb key_cmp).
+Notation wsorted := (sorted bytes_cmp).
+
+Lemma kc_refl k : key_cmp k k = Eq.
+Proof. apply (cmp_refl key_cmp key_ord). Qed.
+Lemma bc_refl b : bytes_cmp b b = Eq.
+Proof. apply (cmp_refl bytes_cmp bytes_ord). Qed.
+Lemma kc_same id f g : key_cmp (KChan id f) (KChan id g) = field_cmp f g.
+Proof. cbn [key_cmp]. rewrite bc_refl. reflexivity. Qed.
+Lemma kc_eq a b : key_cmp a b = Eq <-> a = b.
+Proof. apply (ol_eq key_cmp key_ord). Qed.
+Lemma bytes_eqb_cmp a b : bytes_eqb a b = true <-> bytes_cmp a b = Eq.
+Proof. rewrite bytes_eqb_eq. symmetry. apply (ol_eq bytes_cmp bytes_ord). Qed.
+Lemma bytes_eqb_refl a : bytes_eqb a a = true.
+Proof. apply bytes_eqb_eq. reflexivity. Qed.
+Lemma bytes_eqb_neq a b : a <> b -> bytes_eqb a b = false.
+Proof. intro H. destruct (bytes_eqb a b) eqn:E; [apply bytes_eqb_eq in E; contradiction|reflexivity]. Qed.
+Lemma bytes_dec (a b : bytes) : {a = b} + {a <> b}.
+Proof. destruct (bytes_eqb a b) eqn:E; [left; apply bytes_eqb_eq, E|right; intro H; apply bytes_eqb_eq in H; congruence]. Qed.
+
+Lemma sfind_cons_eq k v (r : store) : kfind k ((k, v) :: r) = Some v.
+Proof. cbn [sfind]. rewrite kc_refl. reflexivity. Qed.
+Lemma sfind_cons_neq k k0 v0 (r : store) : k <> k0 -> kfind k ((k0, v0) :: r) = kfind k r.
+Proof.
+  intro H. cbn [sfind]. destruct (key_cmp k k0) eqn:E; try reflexivity.
+  apply kc_eq in E. contradiction.
+Qed.
+Lemma sfind_none k (l : store) : (forall e, In e l -> fst e <> k) -> kfind k l = None.
+Proof.
+  induction l as [|[k0 v0] r IH]; intro H; [reflexivity|].
+  rewrite sfind_cons_neq.
+  - apply IH. intros e He. apply H. right. exact He.
+  - intro E. apply (H (k0, v0)); [left; reflexivity|symmetry; exact E].
+Qed.
+
+Lemma ksfind_app k (s1 s2 : store) :
+  kfind k (s1 ++ s2) = match kfind k s1 with Some v => Some v | None => kfind k s2 end.
+Proof. apply (sfind_app key_cmp). Qed.
+
+Definition stg_value (m : mach) : value :=
+  match staging m with Some t => VState (tx_st t) | None => VEmpty end.
+(* what the store holds for a live channel, field by field *)
+Definition field_spec (c : chan) (f : field) : option value :=
+  let m := c_m c in
+  match f with
+  | FCurrent => Some (VTx (current m))
+  | FIndex => Some (VIdx (me m))
+  | FParams => Some (VParams (ps m))
+  | FParent => Some (VParent (c_parent c))
+  | FPeers => Some (VPeers (c_peers c))
+  | FPhase => Some (VPhase (ph m))
+  | FSig w i => if (w =? sig_width (N.of_nat (nsigs m))) && (i <? N.of_nat (nsigs m))
+                then Some (sig_value m i) else None
+  | FStaging => Some (stg_value m)
+  end.
+
+Definition sig_entries (id : bytes) (m : mach) (a k : nat) : list entry :=
+  map (fun i => (KChan id (sig_field (nsigs m) i), sig_value m (N.of_nat i))) (seq a k).
+
+Lemma sfind_sig_entries id m w i a k :
+  kfind (KChan id (FSig w i)) (sig_entries id m a k) =
+  if (w =? sig_width (N.of_nat (nsigs m))) && (N.of_nat a <=? i) && (i <? N.of_nat (a + k))
+  then Some (sig_value m i) else None.
+Proof.
+  revert a. induction k as [|k IH]; intro a; unfold sig_entries in *; cbn [seq map].
+  - cbn [sfind]. destruct (w =? _); cbn [andb]; [|reflexivity].
+    destruct (N.of_nat a <=? i) eqn:E1; cbn [andb]; [|reflexivity].
+    destruct (i <? N.of_nat (a + 0)) eqn:E2; [|reflexivity]. lia.
+  - unfold sig_field at 1.
+    destruct (N.eq_dec w (sig_width (N.of_nat (nsigs m)))) as [Ew|Ew];
+      [destruct (N.eq_dec i (N.of_nat a)) as [Ei|Ei]|].
+    + subst w i. rewrite sfind_cons_eq. rewrite N.eqb_refl. cbn [andb].
+      replace (N.of_nat a <=? N.of_nat a) with true by lia.
+      replace (N.of_nat a <? N.of_nat (a + S k)) with true by lia. reflexivity.
+    + rewrite sfind_cons_neq by congruence. rewrite IH. subst w. rewrite N.eqb_refl. cbn [andb].
+      replace (N.of_nat (S a) <=? i) with (N.of_nat a <=? i) by lia.
+      replace (a + S k)%nat with (S a + k)%nat by lia. reflexivity.
+    + rewrite sfind_cons_neq by congruence. rewrite IH.
+      replace (w =? sig_width (N.of_nat (nsigs m))) with false by lia. reflexivity.
+Qed.
+
+Lemma chan_kvs_eq id c :
+  chan_kvs id c =
+  [ (KChan id FCurrent, VTx (current (c_m c))); (KChan id FIndex, VIdx (me (c_m c)));
+    (KChan id FParams, VParams (ps (c_m c))); (KChan id FParent, VParent (c_parent c));
+    (KChan id FPeers, VPeers (c_peers c)); (KChan id FPhase, VPhase (ph (c_m c))) ]
+  ++ sig_entries id (c_m c) 0 (nsigs (c_m c)) ++ [ (KChan id FStaging, stg_value (c_m c)) ].
+Proof. reflexivity. Qed.
+
+Lemma sig_entries_keys id m a k e : In e (sig_entries id m a k) -> exists w i, fst e = KChan id (FSig w i).
+Proof.
+  unfold sig_entries. intro H. apply in_map_iff in H as [j [<- _]]. cbn [fst]. unfold sig_field. eauto.
+Qed.
+
+Lemma sfind_chan_kvs id c f : kfind (KChan id f) (chan_kvs id c) = field_spec c f.
+Proof.
+  rewrite chan_kvs_eq. cbn [app].
+  assert (Hsig : forall g, (forall w i, g <> FSig w i) ->
+            kfind (KChan id g) (sig_entries id (c_m c) 0 (nsigs (c_m c))) = None).
+  { intros g Hg. apply sfind_none. intros e He. apply sig_entries_keys in He as [w [i E]].
+    rewrite E. intro X. injection X as X. apply (Hg w i). symmetry. exact X. }
+  destruct f; cbn [field_spec];
+    try (rewrite ?sfind_cons_neq by discriminate; rewrite ?sfind_cons_eq; try reflexivity).
+  - (* FSig *) rewrite ksfind_app, sfind_sig_entries.
+    replace (N.of_nat 0 <=? i) with true by lia. rewrite andb_true_r. cbn [plus].
+    destruct ((w =? _) && (i <? _)); [reflexivity|].
+    rewrite sfind_cons_neq by discriminate. reflexivity.
+  - (* FStaging *) rewrite ksfind_app, Hsig by (intros; discriminate).
+    rewrite sfind_cons_eq. reflexivity.
+Qed.
+
+Lemma sfind_chan_kvs_other id c k : (forall f, k <> KChan id f) -> kfind k (chan_kvs id c) = None.
+Proof.
+  intro H. apply sfind_none. intros e He. rewrite chan_kvs_eq in He.
+  assert (exists f, fst e = KChan id f) as [f E].
+  { apply in_app_or in He as [He|He].
+    - cbn [In] in He. repeat (destruct He as [<-|He]; [cbn [fst]; eauto|]). destruct He.
+    - apply in_app_or in He as [He|He].
+      + apply sig_entries_keys in He as [w [i E]]. eauto.
+      + destruct He as [<-|[]]. cbn [fst]. eauto. }
+  rewrite E. intro X. apply (H f). symmetry. exact X.
+Qed.
+
+(* sortedness of a channel's block *)
+Lemma lb_sig_entries id m a k j : (j < a)%nat -> klb (KChan id (sig_field (nsigs m) j)) (sig_entries id m a k).
+Proof.
+  intro H. unfold lb, sig_entries. rewrite Forall_forall. intros e He.
+  apply in_map_iff in He as [i [<- Hi]]. apply in_seq in Hi. cbn [fst]. rewrite kc_same.
+  unfold sig_field. cbn [field_cmp]. rewrite N.compare_refl. apply N.compare_lt_iff. lia.
+Qed.
+Lemma sorted_sig_entries id m a k : ksorted (sig_entries id m a k).
+Proof.
+  revert a. induction k as [|k IH]; intro a; [exact I|].
+  unfold sig_entries. cbn [seq map sorted fst]. split; [apply lb_sig_entries; lia|apply IH].
+Qed.
+Lemma lb_low_rest id c f : field_rank f < 6 ->
+  klb (KChan id f) (sig_entries id (c_m c) 0 (nsigs (c_m c)) ++ [(KChan id FStaging, stg_value (c_m c))]).
+Proof.
+  intro H. unfold lb. apply Forall_app. split.
+  - rewrite Forall_forall. intros e He. apply sig_entries_keys in He as [w [i E]]. rewrite E, kc_same.
+    destruct f; cbn [field_rank] in H; try lia; reflexivity.
+  - constructor; [|constructor]. cbn [fst]. rewrite kc_same.
+    destruct f; cbn [field_rank] in H; try lia; reflexivity.
+Qed.
+Lemma sorted_chan_kvs id c : ksorted (chan_kvs id c).
+Proof.
+  rewrite chan_kvs_eq. cbn [app sorted fst].
+  assert (R : ksorted (sig_entries id (c_m c) 0 (nsigs (c_m c)) ++ [(KChan id FStaging, stg_value (c_m c))])).
+  { apply (sorted_app key_cmp); [apply sorted_sig_entries|cbn; split; [constructor|exact I]|].
+    intros e1 e2 H1 [<-|[]]. apply sig_entries_keys in H1 as [w [i E]]. rewrite E. cbn [fst].
+    rewrite kc_same. reflexivity. }
+  repeat split; try exact R;
+    try (unfold lb; repeat (apply Forall_cons; [cbn [fst]; rewrite kc_same; reflexivity|]);
+         apply lb_low_rest; cbn [field_rank]; lia).
+Qed.
+
+(* world lookups *)
+Lemma wfind_put id c id' (W : world) :
+  wfind id' (sput bytes_cmp id c W) = if bytes_eqb id' id then Some c else wfind id' W.
+Proof.
+  unfold wfind. rewrite (sfind_put bytes_cmp bytes_ord).
+  destruct (bytes_cmp id' id) eqn:E.
+  - apply bytes_eqb_cmp in E. rewrite E. reflexivity.
+  - rewrite bytes_eqb_neq; [reflexivity|]. intros ->. rewrite bc_refl in E. discriminate.
+  - rewrite bytes_eqb_neq; [reflexivity|]. intros ->. rewrite bc_refl in E. discriminate.
+Qed.
+Lemma wfind_del id id' (W : world) : wsorted W ->
+  wfind id' (sdel bytes_cmp id W) = if bytes_eqb id' id then None else wfind id' W.
+Proof.
+  intro S. unfold wfind. rewrite (sfind_del bytes_cmp bytes_ord) by exact S.
+  destruct (bytes_cmp id' id) eqn:E.
+  - apply bytes_eqb_cmp in E. rewrite E. reflexivity.
+  - rewrite bytes_eqb_neq; [reflexivity|]. intros ->. rewrite bc_refl in E. discriminate.
+  - rewrite bytes_eqb_neq; [reflexivity|]. intros ->. rewrite bc_refl in E. discriminate.
+Qed.
+
+Definition stg_enc (m : mach) : Prop := forall t, staging m = Some t -> state_encodable (tx_st t) = true.
+Definition wf_chan (id : bytes) (c : chan) : Prop := chan_id (c_m c) = id /\ Inv (c_m c) /\ stg_enc (c_m c).
+Definition wfW (W : world) : Prop := wsorted W /\ forall id c, wfind id W = Some c -> wf_chan id c.
+
+Definition spec_chan (W : world) (id : bytes) (f : field) : option value :=
+  match wfind id W with Some c => field_spec c f | None => None end.
+Definition spec_peer (W : world) (p id : bytes) : option value :=
+  match wfind id W with Some c => if bytes_mem p (c_peers c) then Some VEmpty else None | None => None end.
+(* the store as a function of the live channels: "store = image (snapshots)" *)
+Definition RepC (W : world) (s : store) : Prop :=
+  ksorted s /\ forall id f, kfind (KChan id f) s = spec_chan W id f.
+Definition RepP (W : world) (s : store) : Prop :=
+  forall p id, kfind (KPeer p id) s = spec_peer W p id.
+Definition Rep (W : world) (s : store) : Prop := RepC W s /\ RepP W s.
+
+Lemma Rep_unique W s s' : Rep W s -> Rep W s' -> s = s'.
+Proof.
+  intros [[S1 C1] P1] [[S2 C2] P2]. apply (sorted_ext key_cmp key_ord); auto.
+  intros [id f|p id]; [rewrite C1, C2|rewrite P1, P2]; reflexivity.
+Qed.
+
+(* ====================================================================== *)
+(* D. the restorer reads the image back                                    *)
+(* ====================================================================== *)
+Definition cp_key (id : bytes) (k : key) : bool :=
+  match k with KChan id' _ => bytes_eqb id id' | KPeer _ _ => false end.
+Definition pp_key (p : bytes) (k : key) : bool :=
+  match k with KPeer q _ => bytes_eqb p q | KChan _ _ => false end.
+Definition is_chan_key (k : key) : bool := match k with KChan _ _ => true | _ => false end.
+
+Lemma ksfind_filter (P : key -> bool) k (s : store) :
+  kfind k (filter (fun e => P (fst e)) s) = if P k then kfind k s else None.
+Proof. apply (sfind_filter key_cmp key_ord). Qed.
+Lemma ksorted_filter (P : key -> bool) (s : store) : ksorted s -> ksorted (filter (fun e => P (fst e)) s).
+Proof. apply (sorted_filter key_cmp). Qed.
+
+Lemma filter_chan_some W s id c : RepC W s -> wfind id W = Some c ->
+  filter (chan_prefix id) s = chan_kvs id c.
+Proof.
+  intros [S C] Hc. change (chan_prefix id) with (fun e : entry => cp_key id (fst e)).
+  apply (sorted_ext key_cmp key_ord); [apply ksorted_filter; exact S|apply sorted_chan_kvs|].
+  intro k. rewrite ksfind_filter. destruct k as [id' f|p id']; cbn [cp_key].
+  - destruct (bytes_eqb id id') eqn:E.
+    + apply bytes_eqb_eq in E. subst id'. rewrite C. unfold spec_chan. rewrite Hc.
+      symmetry. apply sfind_chan_kvs.
+    + symmetry. apply sfind_chan_kvs_other. intros f' X. injection X as X _. subst id'.
+      rewrite bytes_eqb_refl in E. discriminate.
+  - symmetry. apply sfind_chan_kvs_other. intros f' X. discriminate X.
+Qed.
+Lemma filter_chan_none W s id : RepC W s -> wfind id W = None -> filter (chan_prefix id) s = [].
+Proof.
+  intros [S C] Hc. change (chan_prefix id) with (fun e : entry => cp_key id (fst e)).
+  apply (sorted_ext key_cmp key_ord); [apply ksorted_filter; exact S|exact I|].
+  intro k. rewrite ksfind_filter. cbn [sfind]. destruct k as [id' f|p id']; cbn [cp_key]; [|reflexivity].
+  destruct (bytes_eqb id id') eqn:E; [|reflexivity].
+  apply bytes_eqb_eq in E. subst id'. rewrite C. unfold spec_chan. rewrite Hc. reflexivity.
+Qed.
+
+Lemma dn_val ae aem k key v r more e : v <> VEmpty -> accepts k v = true ->
+  dn ae aem k (mkIt (((key, v) :: r) :: more) e) = (DVal v, mkIt (r :: more) false).
+Proof.
+  intros Hv Ha. unfold dn. cbn [decode_next it_its it_err].
+  destruct v; try contradiction; rewrite Ha; reflexivity.
+Qed.
+
+Definition sig_opt (v : value) : option sigtok := match v with VSig g => Some g | _ => None end.
+Lemma sig_value_cases m i : sig_value m i = VEmpty \/ exists g, sig_value m i = VSig g.
+Proof.
+  unfold sig_value. destruct (staging m) as [t|]; [|left; reflexivity].
+  destruct (nth_error (tx_sigs t) (N.to_nat i)) as [[g|]|]; eauto.
+Qed.
+
+Lemma read_sigs_entries id m a k rest more :
+  read_sigs k (mkIt ((sig_entries id m a k ++ rest) :: more) false) =
+  Some (map (fun i => sig_opt (sig_value m (N.of_nat i))) (seq a k), mkIt (rest :: more) false).
+Proof.
+  revert a. induction k as [|k IH]; intro a; [reflexivity|].
+  unfold sig_entries in *. cbn [seq map app read_sigs].
+  destruct (sig_value_cases m (N.of_nat a)) as [E|[g E]]; rewrite E.
+  - unfold dn. cbn [decode_next it_its it_err]. rewrite IH. reflexivity.
+  - rewrite dn_val by (discriminate || reflexivity). rewrite IH. reflexivity.
+Qed.
+
+Lemma map_nth_error_flat {A} (l : list (option A)) :
+  map (fun i => match nth_error l i with Some x => x | None => None end) (seq 0 (length l)) = l.
+Proof.
+  induction l as [|x l IH]; [reflexivity|].
+  cbn [length seq map nth_error]. f_equal. rewrite <- seq_shift, map_map. exact IH.
+Qed.
+Lemma map_const_repeat {A B} (b : B) (l : list A) : map (fun _ => b) l = repeat b (length l).
+Proof. induction l; cbn; congruence. Qed.
+
+Lemma sigs_roundtrip m : length (staged_sigs m) = nsigs m ->
+  map (fun i => sig_opt (sig_value m (N.of_nat i))) (seq 0 (nsigs m)) = staged_sigs m.
+Proof.
+  unfold staged_sigs, sig_value. destruct (staging m) as [t|]; intro L.
+  - rewrite <- L. rewrite <- (map_nth_error_flat (tx_sigs t)) at 2.
+    apply map_ext. intro i. rewrite Nat2N.id.
+    destruct (nth_error (tx_sigs t) i) as [[g|]|]; reflexivity.
+  - cbn [sig_opt]. rewrite map_const_repeat, seq_length. reflexivity.
+Qed.
+
+Definition sigs_len (c : chan) : Prop := length (staged_sigs (c_m c)) = nsigs (c_m c).
+
+Lemma next_chan id c rest more e : sigs_len c ->
+  next (mkIt ((chan_kvs id c ++ rest) :: more) e) = (NSome (snap_of c), mkIt (rest :: more) false).
+Proof.
+  intro L. rewrite chan_kvs_eq. rewrite <- !app_assoc. cbn [app]. unfold next. cbn [it_its].
+  rewrite dn_val by (discriminate || reflexivity). cbn [dbind].
+  rewrite dn_val by (discriminate || reflexivity). cbn [dbind].
+  rewrite dn_val by (discriminate || reflexivity). cbn [dbind].
+  rewrite dn_val by (discriminate || reflexivity). cbn [dbind].
+  rewrite dn_val by (discriminate || reflexivity). cbn [dbind].
+  rewrite dn_val by (discriminate || reflexivity). cbn [dbind].
+  change (length (mp_parts (ps (c_m c)))) with (nsigs (c_m c)).
+  rewrite read_sigs_entries. rewrite (sigs_roundtrip _ L).
+  unfold snap_of, stg_value. destruct (staging (c_m c)) as [t|] eqn:Est.
+  - rewrite dn_val by (discriminate || reflexivity). cbn [option_map]. reflexivity.
+  - unfold dn. cbn [decode_next it_its it_err option_map]. reflexivity.
+Qed.
+
+Lemma next_skip_empty b more e : next (mkIt ([] :: b :: more) e) = next (mkIt (b :: more) e).
+Proof. reflexivity. Qed.
+Lemma next_end e : next (mkIt [[]] e) = (NNone, mkIt [] e).
+Proof. reflexivity. Qed.
+Lemma next_nil e : next (mkIt [] e) = (NNone, mkIt [] e).
+Proof. reflexivity. Qed.
+
+Lemma Inv_sigs_len id c : wf_chan id c -> sigs_len c.
+Proof.
+  intros [_ [I _]]. unfold sigs_len, staged_sigs, nsigs.
+  destruct (staging (c_m c)) as [t|] eqn:E.
+  - destruct (inv_staging _ I t E) as [L _]. exact L.
+  - apply repeat_length.
+Qed.
+
+(* RestoreChannel returns the snapshot of the live channel, or "not found" *)
+Lemma restore_chan_view W s id : RepC W s -> wfW W -> restore_chan s id = view W id.
+Proof.
+  intros R [_ Hwf]. unfold restore_chan, view. destruct (wfind id W) as [c|] eqn:E.
+  - rewrite (filter_chan_some W s id c R E). rewrite <- (app_nil_r (chan_kvs id c)).
+    rewrite next_chan by (eapply Inv_sigs_len, Hwf, E). reflexivity.
+  - rewrite (filter_chan_none W s id R E). reflexivity.
+Qed.
+
+(* ---------- RestoreAll ---------- *)
+Definition kvs_of (ic : bytes * chan) : list entry := chan_kvs (fst ic) (snd ic).
+Definition blocks (W : world) : store := concat (map kvs_of W).
+
+Lemma chan_kvs_keys id c e : In e (chan_kvs id c) -> exists f, fst e = KChan id f.
+Proof.
+  intro He. rewrite chan_kvs_eq in He. apply in_app_or in He as [He|He].
+  - cbn [In] in He. repeat (destruct He as [<-|He]; [cbn [fst]; eauto|]). destruct He.
+  - apply in_app_or in He as [He|He].
+    + apply sig_entries_keys in He as [w [i E]]. eauto.
+    + destruct He as [<-|[]]. cbn [fst]. eauto.
+Qed.
+Lemma blocks_keys W e : In e (blocks W) -> exists id c f, In (id, c) W /\ fst e = KChan id f.
+Proof.
+  unfold blocks. intro H. apply in_concat in H as [l [Hl He]]. apply in_map_iff in Hl as [[id c] [<- Hic]].
+  apply chan_kvs_keys in He as [f E]. eauto.
+Qed.
+Lemma wfind_cons id id0 c0 (W : world) :
+  wfind id ((id0, c0) :: W) = if bytes_eqb id id0 then Some c0 else wfind id W.
+Proof.
+  unfold wfind. cbn [sfind]. destruct (bytes_cmp id id0) eqn:E.
+  - apply bytes_eqb_cmp in E. rewrite E. reflexivity.
+  - rewrite bytes_eqb_neq; [reflexivity|]. intros ->. rewrite bc_refl in E. discriminate.
+  - rewrite bytes_eqb_neq; [reflexivity|]. intros ->. rewrite bc_refl in E. discriminate.
+Qed.
+Lemma wlb_notfound id (W : world) : lb bytes_cmp id W -> wfind id W = None.
+Proof. apply (lb_notfound bytes_cmp). Qed.
+
+Lemma sorted_blocks W : wsorted W -> ksorted (blocks W).
+Proof.
+  induction W as [|[id0 c0] W IH]; intro S; [exact I|].
+  destruct S as [L S]. cbn [fst] in L. unfold blocks. cbn [map concat].
+  apply (sorted_app key_cmp); [apply sorted_chan_kvs|apply IH, S|].
+  intros e1 e2 H1 H2. apply chan_kvs_keys in H1 as [f1 E1]. cbn [fst snd] in E1.
+  apply blocks_keys in H2 as [id [c [f2 [Hin E2]]]]. rewrite E1, E2. cbn [key_cmp].
+  unfold lb in L. rewrite Forall_forall in L. pose proof (L _ Hin) as Hl. cbn [fst] in Hl.
+  rewrite Hl. reflexivity.
+Qed.
+Lemma sfind_blocks W k : wsorted W ->
+  kfind k (blocks W) = match k with KChan id f => spec_chan W id f | KPeer _ _ => None end.
+Proof.
+  induction W as [|[id0 c0] W IH]; intro S.
+  - destruct k; reflexivity.
+  - destruct S as [L S]. cbn [fst] in L. unfold blocks. cbn [map concat]. fold (blocks W).
+    rewrite ksfind_app, (IH S). unfold kvs_of. cbn [fst snd]. destruct k as [id f|p id].
+    + unfold spec_chan. rewrite wfind_cons. destruct (bytes_eqb id id0) eqn:E.
+      * apply bytes_eqb_eq in E. subst id0. rewrite sfind_chan_kvs.
+        destruct (field_spec c0 f); [reflexivity|]. rewrite (wlb_notfound _ _ L). reflexivity.
+      * rewrite sfind_chan_kvs_other; [reflexivity|].
+        intros f' X. injection X as X _. subst id0. rewrite bytes_eqb_refl in E. discriminate.
+    + rewrite sfind_chan_kvs_other by (intros; discriminate). reflexivity.
+Qed.
+
+Lemma filter_all W s : RepC W s -> wsorted W -> filter is_chan_entry s = blocks W.
+Proof.
+  intros [S C] SW. change is_chan_entry with (fun e : entry => is_chan_key (fst e)).
+  apply (sorted_ext key_cmp key_ord); [apply ksorted_filter; exact S|apply sorted_blocks; exact SW|].
+  intro k. rewrite ksfind_filter, sfind_blocks by exact SW.
+  destruct k; cbn [is_chan_key]; [apply C|reflexivity].
+Qed.
+
+Definition all_sigs_len (L : list (bytes * chan)) : Prop := forall ic, In ic L -> sigs_len (snd ic).
+
+Lemma drain_blocks W fuel : all_sigs_len W -> (length W < fuel)%nat ->
+  drain fuel (mkIt [blocks W] false) = (map (fun ic => snap_of (snd ic)) W, EOk).
+Proof.
+  revert fuel. induction W as [|[id0 c0] W IH]; intros [|fuel] HL Hf; try (cbn [length] in Hf; lia).
+  - reflexivity.
+  - cbn [drain]. unfold blocks. cbn [map concat]. fold (blocks W). unfold kvs_of at 1. cbn [fst snd].
+    rewrite next_chan by (apply (HL (id0, c0)); left; reflexivity).
+    rewrite IH; [reflexivity| |cbn [length] in Hf; lia].
+    intros ic Hic. apply HL. right. exact Hic.
+Qed.
+
+Lemma filter_length_le' {A} (f : A -> bool) l : (length (filter f l) <= length l)%nat.
+Proof. induction l as [|x l IH]; cbn [filter length]; [lia|]. destruct (f x); cbn [length]; lia. Qed.
+Lemma chan_kvs_nonempty id c : (1 <= length (chan_kvs id c))%nat.
+Proof. rewrite chan_kvs_eq. cbn [app length]. lia. Qed.
+Lemma blocks_length W : (length W <= length (blocks W))%nat.
+Proof.
+  induction W as [|[id c] W IH]; [cbn; lia|]. unfold blocks. cbn [map concat length]. fold (blocks W).
+  rewrite app_length. pose proof (chan_kvs_nonempty id c). unfold kvs_of. cbn [fst snd]. lia.
+Qed.
+Lemma world_le_store W s : RepC W s -> wsorted W -> (length W <= length s)%nat.
+Proof.
+  intros R SW. pose proof (filter_all W s R SW) as E. pose proof (filter_length_le' is_chan_entry s).
+  pose proof (blocks_length W). rewrite E in *. lia.
+Qed.
+Lemma wfW_sigs_len W : wfW W -> all_sigs_len W.
+Proof.
+  intros [SW H] [id c] Hin. cbn [snd]. eapply (Inv_sigs_len id). apply H.
+  unfold wfind. apply (sfind_in bytes_cmp bytes_ord); assumption.
+Qed.
+
+Lemma restore_all_spec W s : RepC W s -> wfW W ->
+  restore_all s = (map (fun ic => snap_of (snd ic)) W, EOk).
+Proof.
+  intros R HW. unfold restore_all. rewrite (filter_all W s R (proj1 HW)).
+  apply drain_blocks; [apply wfW_sigs_len; exact HW|].
+  pose proof (world_le_store W s R (proj1 HW)). lia.
+Qed.
+
+(* ---------- RestorePeer ---------- *)
+Definition lists_peer (p : bytes) (ic : bytes * chan) : bool := bytes_mem p (c_peers (snd ic)).
+Definition sel (p : bytes) (W : world) : world := filter (lists_peer p) W.
+Definition peer_entry (p : bytes) (ic : bytes * chan) : entry := (KPeer p (fst ic), VEmpty).
+
+Lemma sorted_peer_list p W : wsorted W -> ksorted (map (peer_entry p) (sel p W)).
+Proof.
+  induction W as [|[id0 c0] W IH]; intro S; [exact I|].
+  destruct S as [L S]. cbn [fst] in L. unfold sel. cbn [filter]. fold (sel p W).
+  destruct (lists_peer p (id0, c0)); [|apply IH, S].
+  cbn [map sorted]. split; [|apply IH, S].
+  unfold lb. rewrite Forall_forall. intros e He. apply in_map_iff in He as [[id c] [<- Hin]].
+  unfold sel in Hin. apply filter_In in Hin as [Hin _]. cbn [peer_entry fst key_cmp]. rewrite bc_refl.
+  unfold lb in L. rewrite Forall_forall in L. apply (L _ Hin).
+Qed.
+Lemma sfind_peer_list p W q id : wsorted W ->
+  kfind (KPeer q id) (map (peer_entry p) (sel p W)) = if bytes_eqb p q then spec_peer W p id else None.
+Proof.
+  intro S. destruct (bytes_eqb p q) eqn:Epq.
+  - apply bytes_eqb_eq in Epq. subst q. induction W as [|[id0 c0] W IH]; [reflexivity|].
+    destruct S as [L S]. cbn [fst] in L. unfold sel. cbn [filter]. fold (sel p W).
+    unfold spec_peer. rewrite wfind_cons. unfold lists_peer at 1. cbn [snd].
+    destruct (bytes_eqb id id0) eqn:E.
+    + apply bytes_eqb_eq in E. subst id0. destruct (bytes_mem p (c_peers c0)).
+      * cbn [map peer_entry fst]. apply sfind_cons_eq.
+      * rewrite (IH S). unfold spec_peer. rewrite (wlb_notfound _ _ L). reflexivity.
+    + destruct (bytes_mem p (c_peers c0)); [|apply IH, S].
+      cbn [map]. unfold peer_entry at 1. cbn [fst]. rewrite sfind_cons_neq; [apply IH, S|].
+      intro X. injection X as X. subst id0. rewrite bytes_eqb_refl in E. discriminate.
+  - apply sfind_none. intros e He. apply in_map_iff in He as [ic [<- _]]. cbn [peer_entry fst].
+    intro X. injection X as X _. subst q. rewrite bytes_eqb_refl in Epq. discriminate.
+Qed.
+Lemma filter_peer W s p : RepP W s -> ksorted s -> wsorted W ->
+  filter (peer_prefix p) s = map (peer_entry p) (sel p W).
+Proof.
+  intros RP S SW. change (peer_prefix p) with (fun e : entry => pp_key p (fst e)).
+  apply (sorted_ext key_cmp key_ord); [apply ksorted_filter; exact S|apply sorted_peer_list; exact SW|].
+  intro k. rewrite ksfind_filter. destruct k as [id f|q id]; cbn [pp_key].
+  - symmetry. apply sfind_none. intros e He. apply in_map_iff in He as [ic [<- _]]. discriminate.
+  - rewrite sfind_peer_list by exact SW. destruct (bytes_eqb p q) eqn:E; [|reflexivity].
+    apply bytes_eqb_eq in E. subst q. apply RP.
+Qed.
+Lemma peer_ids_of_list p (L : world) :
+  fold_right (fun (e : entry) acc => match fst e with KPeer _ id => id :: acc | _ => acc end) []
+             (map (peer_entry p) L) = map fst L.
+Proof. induction L as [|ic L IH]; cbn [map fold_right peer_entry fst]; congruence. Qed.
+
+Lemma drain_skip fuel (L : list (list entry)) :
+  drain fuel (mkIt ([] :: L) false) = drain fuel (mkIt L false).
+Proof.
+  destruct fuel as [|fuel]; [reflexivity|]. destruct L as [|b L]; cbn [drain].
+  - rewrite next_end, next_nil. reflexivity.
+  - rewrite next_skip_empty. reflexivity.
+Qed.
+Lemma drain_list (L : world) fuel : all_sigs_len L -> (length L < fuel)%nat ->
+  drain fuel (mkIt (map kvs_of L) false) = (map (fun ic => snap_of (snd ic)) L, EOk).
+Proof.
+  revert fuel. induction L as [|[id0 c0] L IH]; intros [|fuel] HL Hf; try (cbn [length] in Hf; lia).
+  - reflexivity.
+  - cbn [drain map]. unfold kvs_of at 1. cbn [fst snd]. rewrite <- (app_nil_r (chan_kvs id0 c0)).
+    rewrite next_chan by (apply (HL (id0, c0)); left; reflexivity).
+    rewrite drain_skip, IH; [reflexivity| |cbn [length] in Hf; lia].
+    intros ic Hic. apply HL. right. exact Hic.
+Qed.
+
+Lemma restore_peer_spec W s p : Rep W s -> wfW W ->
+  restore_peer s p = (map (fun ic => snap_of (snd ic)) (sel p W), EOk).
+Proof.
+  intros [RC RP] HW. pose proof (proj1 HW) as SW. unfold restore_peer, peer_chan_ids.
+  rewrite (filter_peer W s p RP (proj1 RC) SW), peer_ids_of_list, map_map.
+  assert (E : map (fun ic : bytes * chan => filter (chan_prefix (fst ic)) s) (sel p W) = map kvs_of (sel p W)).
+  { apply map_ext_in. intros [id c] Hin. cbn [fst]. unfold sel in Hin. apply filter_In in Hin as [Hin _].
+    apply (filter_chan_some W s id c RC). unfold wfind. apply (sfind_in bytes_cmp bytes_ord); assumption. }
+  rewrite E. apply drain_list.
+  - intros ic Hic. apply (wfW_sigs_len W HW). unfold sel in Hic. apply filter_In in Hic. apply Hic.
+  - pose proof (world_le_store W s RC SW). pose proof (filter_length_le' (lists_peer p) W). unfold sel. lia.
+Qed.
+
+(* ---------- ActivePeers ---------- *)
+Lemma bytes_mem_In x l : bytes_mem x l = true <-> In x l.
+Proof.
+  induction l as [|y l IH]; cbn [bytes_mem In]; [split; [discriminate|intros []]|].
+  rewrite orb_true_iff, IH, bytes_eqb_eq. split; intros [H|H]; auto.
+Qed.
+Lemma dedup_In x l : In x (dedup l) <-> In x l.
+Proof.
+  induction l as [|y l IH]; cbn [dedup In]; [reflexivity|].
+  destruct (bytes_mem y (dedup l)) eqn:E.
+  - rewrite IH. split; [auto|]. intros [<-|H]; [|exact H]. apply IH, bytes_mem_In, E.
+  - cbn [In]. rewrite IH. reflexivity.
+Qed.
+Lemma dedup_NoDup l : NoDup (dedup l).
+Proof.
+  induction l as [|y l IH]; cbn [dedup]; [constructor|].
+  destruct (bytes_mem y (dedup l)) eqn:E; [exact IH|]. constructor; [|exact IH].
+  intro H. apply bytes_mem_In in H. congruence.
+Qed.
+Lemma peers_of_In p (s : store) :
+  In p (fold_right (fun (e : entry) acc => match fst e with KPeer q _ => q :: acc | _ => acc end) [] s)
+  <-> exists id v, In (KPeer p id, v) s.
+Proof.
+  induction s as [|[k v] s IH]; cbn [fold_right fst In].
+  - split; [intros []|intros [? [? []]]].
+  - destruct k as [id f|q id].
+    + rewrite IH. split; intros [i [w H]]; exists i, w; [right; exact H|].
+      destruct H as [H|H]; [discriminate H|exact H].
+    + cbn [In]. rewrite IH. split.
+      * intros [<-|[i [w H]]]; [exists id, v; left; reflexivity|exists i, w; right; exact H].
+      * intros [i [w [H|H]]]; [injection H as -> _ _; left; reflexivity|right; eauto].
+Qed.
+
+Lemma active_peers_spec W s p : Rep W s ->
+  (In p (active_peers s) <-> exists id c, wfind id W = Some c /\ In p (c_peers c)).
+Proof.
+  intros [[S _] RP]. unfold active_peers. rewrite dedup_In, peers_of_In. split.
+  - intros [id [v H]]. apply (sfind_in key_cmp key_ord _ _ _ S) in H. rewrite RP in H.
+    unfold spec_peer in H. destruct (wfind id W) as [c|] eqn:E; [|discriminate].
+    destruct (bytes_mem p (c_peers c)) eqn:M; [|discriminate]. apply bytes_mem_In in M. eauto.
+  - intros [id [c [E M]]]. exists id, VEmpty. apply (sfind_in key_cmp key_ord _ _ _ S). rewrite RP.
+    unfold spec_peer. rewrite E. apply bytes_mem_In in M. rewrite M. reflexivity.
+Qed.
+Lemma active_peers_nodup s : NoDup (active_peers s).
+Proof. apply dedup_NoDup. Qed.
+
+(* ====================================================================== *)
+(* E. writes                                                               *)
+(* ====================================================================== *)
+Definition wr_key (w : wr) : key := match w with WPut k _ => k | WDel k => k end.
+Definition wr_res (w : wr) : option value := match w with WPut _ v => Some v | WDel _ => None end.
+(* the effect of one atomic write on the lookup of key k *)
+Definition eff (k : key) (a : atomic) (init : option value) : option value :=
+  fold_left (fun acc w => match key_cmp k (wr_key w) with Eq => wr_res w | _ => acc end) a init.
+
+Lemma eff_cons k w a init :
+  eff k (w :: a) init = eff k a (match key_cmp k (wr_key w) with Eq => wr_res w | _ => init end).
+Proof. reflexivity. Qed.
+Lemma sorted_apply_wr s w : ksorted s -> ksorted (apply_wr s w).
+Proof. destruct w; cbn [apply_wr]; [apply (sorted_put key_cmp key_ord)|apply (sorted_del key_cmp)]. Qed.
+Lemma sorted_apply_atomic a s : ksorted s -> ksorted (apply_atomic s a).
+Proof.
+  revert s. induction a as [|w a IH]; intros s S; [exact S|].
+  unfold apply_atomic. cbn [fold_left]. apply IH, sorted_apply_wr, S.
+Qed.
+Lemma sorted_apply_atomics l s : ksorted s -> ksorted (apply_atomics s l).
+Proof.
+  revert s. induction l as [|a l IH]; intros s S; [exact S|].
+  unfold apply_atomics. cbn [fold_left]. apply IH, sorted_apply_atomic, S.
+Qed.
+Lemma find_apply_wr k s w : ksorted s ->
+  kfind k (apply_wr s w) = match key_cmp k (wr_key w) with Eq => wr_res w | _ => kfind k s end.
+Proof.
+  intro S. destruct w; cbn [apply_wr wr_key wr_res].
+  - apply (sfind_put key_cmp key_ord).
+  - apply (sfind_del key_cmp key_ord). exact S.
+Qed.
+Lemma find_apply_atomic k a s : ksorted s -> kfind k (apply_atomic s a) = eff k a (kfind k s).
+Proof.
+  revert s. induction a as [|w a IH]; intros s S; [reflexivity|].
+  rewrite eff_cons. change (apply_atomic s (w :: a)) with (apply_atomic (apply_wr s w) a).
+  rewrite IH by (apply sorted_apply_wr; exact S). rewrite find_apply_wr by exact S. reflexivity.
+Qed.
+
+(* field equality is decidable *)
+Lemma field_dec (f g : field) : {f = g} + {f <> g}.
+Proof. decide equality; apply N.eq_dec. Qed.
+Lemma key_dec (x y : key) : {x = y} + {x <> y}.
+Proof. decide equality; try apply bytes_dec; apply field_dec. Qed.
+Lemma eff_notin k a init : (forall w, In w a -> wr_key w <> k) -> eff k a init = init.
+Proof.
+  revert init. induction a as [|w a IH]; intros init H; [reflexivity|].
+  rewrite eff_cons.
+  rewrite IH by (intros w' Hw; apply H; right; exact Hw).
+  destruct (key_cmp k (wr_key w)) eqn:E; try reflexivity.
+  apply kc_eq in E. exfalso. apply (H w); [left; reflexivity|symmetry; exact E].
+Qed.
+Lemma eff_in k a init r : (exists w, In w a /\ wr_key w = k) ->
+  (forall w, In w a -> wr_key w = k -> wr_res w = r) -> eff k a init = r.
+Proof.
+  revert init. induction a as [|w a IH]; intros init [w0 [Hin Hk]] Hr; [destruct Hin|].
+  rewrite eff_cons.
+  assert (Hr' : forall w', In w' a -> wr_key w' = k -> wr_res w' = r) by (intros; apply Hr; [right|]; assumption).
+  destruct (in_dec key_dec k (map wr_key a)) as [Hm|Hm].
+  - apply in_map_iff in Hm as [w1 [E1 H1]]. apply IH; eauto.
+  - rewrite eff_notin.
+    + destruct Hin as [<-|Hin].
+      * rewrite Hk, kc_refl. apply Hr; [left; reflexivity|exact Hk].
+      * exfalso. apply Hm. apply in_map_iff. eauto.
+    + intros w' Hw' E. apply Hm. apply in_map_iff. eauto.
+Qed.
+Lemma eff_app k a b init : eff k (a ++ b) init = eff k b (eff k a init).
+Proof. unfold eff. apply fold_left_app. Qed.
+
+
+Lemma In_sig_fields n w i : In (FSig w i) (sig_fields n) <-> w = sig_width (N.of_nat n) /\ i < N.of_nat n.
+Proof.
+  unfold sig_fields, sig_field. rewrite in_map_iff. split.
+  - intros [j [E Hj]]. apply in_seq in Hj. injection E as <- <-. split; [reflexivity|lia].
+  - intros [-> H]. exists (N.to_nat i). rewrite N2Nat.id. split; [reflexivity|]. apply in_seq. lia.
+Qed.
+Lemma In_sig_fields_inv n f : In f (sig_fields n) -> exists w i, f = FSig w i.
+Proof. unfold sig_fields, sig_field. rewrite in_map_iff. intros [j [<- _]]. eauto. Qed.
+
+(* dbPutSource into a batch *)
+Lemma put_fields_shape m fs a : put_fields m fs = Some a ->
+  (forall w, In w a -> exists f v, In f fs /\ src_field m f = Some v /\ w = WPut (KChan (chan_id m) f) v) /\
+  (forall f, In f fs -> exists v, src_field m f = Some v /\ In (WPut (KChan (chan_id m) f) v) a).
+Proof.
+  revert a. induction fs as [|f fs IH]; intros a H; cbn [put_fields] in H.
+  - injection H as <-. split; [intros w []|intros f []].
+  - destruct (src_field m f) as [v|] eqn:Ef; [|discriminate].
+    destruct (put_fields m fs) as [a'|] eqn:Ea; [|discriminate]. injection H as <-.
+    destruct (IH a' eq_refl) as [H1 H2]. split.
+    + intros w [<-|Hw]; [exists f, v; repeat split; auto; left; reflexivity|].
+      destruct (H1 w Hw) as [f' [v' [Hin [E ->]]]]. exists f', v'. repeat split; auto. right. exact Hin.
+    + intros f' [<-|Hin]; [exists v; split; [exact Ef|left; reflexivity]|].
+      destruct (H2 f' Hin) as [v' [E Hw]]. exists v'. split; [exact E|right; exact Hw].
+Qed.
+Lemma put_fields_ok m fs : (forall f, In f fs -> src_field m f <> None) -> exists a, put_fields m fs = Some a.
+Proof.
+  induction fs as [|f fs IH]; intro H; cbn [put_fields]; [eauto|].
+  destruct (src_field m f) as [v|] eqn:Ef; [|exfalso; apply (H f); [left; reflexivity|exact Ef]].
+  destruct IH as [a Ea]; [intros g Hg; apply H; right; exact Hg|]. rewrite Ea. eauto.
+Qed.
+Lemma eff_put_fields m fs a id' f init : put_fields m fs = Some a ->
+  eff (KChan id' f) a init = if bytes_eqb id' (chan_id m) then (if in_dec field_dec f fs then src_field m f else init) else init.
+Proof.
+  intro H. destruct (put_fields_shape m fs a H) as [H1 H2].
+  destruct (bytes_eqb id' (chan_id m)) eqn:E.
+  - apply bytes_eqb_eq in E. subst id'. destruct (in_dec field_dec f fs) as [Hin|Hnin].
+    + destruct (H2 f Hin) as [v [Ev Hw]]. rewrite Ev. apply eff_in; [exists (WPut (KChan (chan_id m) f) v); auto|].
+      intros w Hw' Hk. destruct (H1 w Hw') as [f' [v' [_ [Ev' ->]]]]. cbn [wr_key] in Hk. injection Hk as ->.
+      cbn [wr_res]. congruence.
+    + apply eff_notin. intros w Hw Hk. destruct (H1 w Hw) as [f' [v' [Hin' [_ ->]]]]. cbn [wr_key] in Hk.
+      injection Hk as ->. contradiction.
+  - apply eff_notin. intros w Hw Hk. destruct (H1 w Hw) as [f' [v' [_ [_ ->]]]]. cbn [wr_key] in Hk.
+    injection Hk as Hk _. rewrite <- Hk, bytes_eqb_refl in E. discriminate.
+Qed.
+Lemma eff_put_fields_peer m fs a p id init : put_fields m fs = Some a -> eff (KPeer p id) a init = init.
+Proof.
+  intro H. destruct (put_fields_shape m fs a H) as [H1 _]. apply eff_notin.
+  intros w Hw Hk. destruct (H1 w Hw) as [f' [v' [_ [_ ->]]]]. discriminate Hk.
+Qed.
+
+(* ====================================================================== *)
+(* F. what a machine step changes                                          *)
+(* ====================================================================== *)
+Definition okout (x : out) : bool := match x with OK | OKSig _ => true | _ => false end.
+(* the states handed to the machine can be encoded (the persister would fail otherwise) *)
+Definition op_ok (o : op) : bool :=
+  match o with
+  | OInit a _ => forallb bigints_ok (al_bals a) && forallb (fun l => bigints_ok (sa_bals l)) (al_locked a)
+  | OUpdate s _ | OForceUpdate s _ | OSetProgressing s | OSetProgressed s => state_encodable s
+  | _ => true
+  end.
+
+Ltac step_cases o :=
+  destruct o; unfold step, enable_staged, simple_transition, set_staging, add_tx, set_phase, new_tx;
+  break_match; cbn [fst snd ph me ps staging current].
+
+Lemma step_me_ps m o : me (fst (step m o)) = me m /\ ps (fst (step m o)) = ps m.
+Proof. step_cases o; auto. Qed.
+
+Lemma step_staged_frame m o : call_of m o = PStaged -> current (fst (step m o)) = current m.
+Proof. intro H. destruct o; try discriminate H; clear H;
+  unfold step, set_staging; break_match; cbn [fst current]; reflexivity. Qed.
+
+Lemma step_phase_frame m o : call_of m o = PPhaseChanged ->
+  staging (fst (step m o)) = staging m /\ current (fst (step m o)) = current m.
+Proof. intro H. destruct o; try discriminate H; clear H;
+  unfold step, simple_transition, set_phase; break_match; cbn [fst current staging]; auto. Qed.
+
+Lemma step_none_frame m o : call_of m o = PNone -> fst (step m o) = m.
+Proof. intro H. destruct o; try discriminate H; clear H. unfold step; break_match; reflexivity. Qed.
+
+Lemma nth_error_set_nth_neq {A} i j (x : A) l : i <> j -> nth_error (set_nth i x l) j = nth_error l j.
+Proof.
+  revert i j. induction l as [|y l IH]; intros [|i] [|j] H; cbn [set_nth nth_error]; try reflexivity.
+  - contradiction.
+  - apply IH. congruence.
+Qed.
+
+(* Sig / AddSig: only the addressed slot of the staged transaction changes *)
+Lemma step_sig_frame m o i0 : call_of m o = PSigAdded i0 -> okout (snd (step m o)) = true ->
+  ph (fst (step m o)) = ph m /\ current (fst (step m o)) = current m /\
+  exists t t', staging m = Some t /\ staging (fst (step m o)) = Some t' /\ tx_st t' = tx_st t /\
+    (N.to_nat i0 < length (tx_sigs t))%nat /\
+    forall j, j <> N.to_nat i0 -> nth_error (tx_sigs t') j = nth_error (tx_sigs t) j.
+Proof.
+  intros H Hok. destruct o; try discriminate H; cbn [call_of] in H; injection H as <-;
+    unfold step in *; break_match; cbn [fst snd okout ph current staging] in *; try discriminate Hok;
+    (split; [reflexivity|split; [reflexivity|]]).
+  all: eexists _, _; (split; [first [reflexivity|eassumption]|]); (split; [first [eassumption|reflexivity]|]);
+    (split; [reflexivity|]); cbn [tx_st tx_sigs]; (split; [apply nth_error_Some; congruence|]);
+    intros j Hj; first [reflexivity|apply nth_error_set_nth_neq; congruence].
+Qed.
+
+Lemma new_state_enc m a d s : new_state m a d = Some s -> op_ok (OInit a d) = true -> state_encodable s = true.
+Proof.
+  unfold new_state. destruct (_ && alloc_valid a) eqn:E; [|discriminate]. intro H. injection H as <-.
+  apply andb_true_iff in E as [_ E]. cbn [op_ok]. intro H. apply andb_true_iff in H as [H1 H2].
+  unfold state_encodable. cbn [st_alloc]. rewrite E, H1, H2. reflexivity.
+Qed.
+
+Lemma stg_enc_step m o : stg_enc m -> op_ok o = true -> stg_enc (fst (step m o)).
+Proof.
+  intros He Hok. unfold stg_enc in *.
+  destruct o; unfold step, enable_staged, simple_transition, set_staging, add_tx, set_phase, new_tx;
+    break_match; cbn [fst staging]; try exact He; intros tt Htt; try discriminate Htt.
+  all: try (injection Htt as <-; cbn [tx_st]).
+  all: try exact Hok.
+  all: try (eapply new_state_enc; eassumption).
+  all: try (eapply He; congruence).
+Qed.
+
+(* Enabled / SetProgressed: the new current transaction is encodable *)
+Lemma step_enabled_enc m o : stg_enc m -> op_ok o = true -> call_of m o = PEnabled ->
+  okout (snd (step m o)) = true ->
+  forall t, current (fst (step m o)) = Some t -> state_encodable (tx_st t) = true.
+Proof.
+  intros He Hok H Hx. unfold stg_enc in He.
+  destruct o; try discriminate H; clear H;
+    unfold step, enable_staged, add_tx, new_tx in *; break_match; cbn [fst snd current okout] in *;
+    try discriminate Hx; intros tt Htt; injection Htt as <-; cbn [tx_st]; try exact Hok; eapply He; eauto.
+Qed.
+
+(* ====================================================================== *)
+(* G. every persister call keeps "store = image of the live channels"      *)
+(* ====================================================================== *)
+Definition call_fields (m' : mach) (c : pcall) : list field :=
+  match c with
+  | PStaged => [FStaging; FPhase] ++ sig_fields (nsigs m')
+  | PSigAdded i => [FSig (sig_width (N.of_nat (nsigs m'))) i]
+  | PEnabled => [FStaging; FCurrent; FPhase] ++ sig_fields (nsigs m')
+  | PPhaseChanged => [FPhase]
+  | _ => []
+  end.
+Definition single_call (c : pcall) : bool :=
+  match c with PStaged | PSigAdded _ | PEnabled | PPhaseChanged => true | _ => false end.
+Lemma persist_single s m' c : single_call c = true ->
+  persist s m' c = option_map (fun a => [a]) (put_fields m' (call_fields m' c)).
+Proof. destruct c; try discriminate; reflexivity. Qed.
+
+(* the written fields carry the new snapshot, the others are not changed by the operation *)
+Definition frame (m m' : mach) (P : list bytes) (Q : option bytes) (fs : list field) : Prop :=
+  (forall f, In f fs -> src_field m' f = field_spec (mkChan m' P Q) f /\ src_field m' f <> None) /\
+  (forall f, ~ In f fs -> field_spec (mkChan m' P Q) f = field_spec (mkChan m P Q) f).
+
+Lemma src_staging m : stg_enc m -> src_field m FStaging = Some (stg_value m).
+Proof.
+  intro H. unfold src_field, stg_value. destruct (staging m) as [t|] eqn:E; [|reflexivity].
+  rewrite (H t E). reflexivity.
+Qed.
+Lemma src_current m : (forall t, current m = Some t -> state_encodable (tx_st t) = true) ->
+  src_field m FCurrent = Some (VTx (current m)).
+Proof.
+  intro H. unfold src_field. destruct (current m) as [t|] eqn:E; [|reflexivity].
+  rewrite (H t eq_refl). reflexivity.
+Qed.
+Lemma src_sig m P Q f : In f (sig_fields (nsigs m)) ->
+  src_field m f = field_spec (mkChan m P Q) f /\ src_field m f <> None.
+Proof.
+  intro H. destruct (In_sig_fields_inv _ _ H) as [w [i ->]]. apply In_sig_fields in H as [-> Hi].
+  cbn [src_field field_spec c_m]. rewrite N.eqb_refl. replace (i <? N.of_nat (nsigs m)) with true by lia.
+  cbn [andb]. split; [reflexivity|discriminate].
+Qed.
+Lemma spec_sig_out m m' P Q w i : ps m' = ps m -> ~ In (FSig w i) (sig_fields (nsigs m')) ->
+  field_spec (mkChan m' P Q) (FSig w i) = field_spec (mkChan m P Q) (FSig w i).
+Proof.
+  intros Hps H. assert (En : nsigs m' = nsigs m) by (unfold nsigs; rewrite Hps; reflexivity).
+  cbn [field_spec c_m]. rewrite En in *.
+  destruct ((w =? sig_width (N.of_nat (nsigs m))) && (i <? N.of_nat (nsigs m))) eqn:E; [|reflexivity].
+  exfalso. apply H. apply In_sig_fields. apply andb_true_iff in E as [E1 E2]. split; lia.
+Qed.
+
+Lemma frame_staged m m' P Q : me m' = me m -> ps m' = ps m -> current m' = current m -> stg_enc m' ->
+  frame m m' P Q (call_fields m' PStaged).
+Proof.
+  intros Hme Hps Hcur He. cbn [call_fields]. split.
+  - intros f [<-|[<-|H]].
+    + rewrite (src_staging m' He). split; [reflexivity|discriminate].
+    + split; [reflexivity|discriminate].
+    + apply (src_sig m' P Q), H.
+  - intros f H. cbn [app In] in H.
+    destruct f; try (apply (spec_sig_out m m' P Q); [exact Hps|intro X; apply H; auto]);
+      cbn [field_spec c_m c_peers c_parent]; try congruence; try (exfalso; apply H; auto; fail).
+Qed.
+Lemma frame_enabled m m' P Q : me m' = me m -> ps m' = ps m -> stg_enc m' ->
+  (forall t, current m' = Some t -> state_encodable (tx_st t) = true) ->
+  frame m m' P Q (call_fields m' PEnabled).
+Proof.
+  intros Hme Hps He Hc. cbn [call_fields]. split.
+  - intros f [<-|[<-|[<-|H]]].
+    + rewrite (src_staging m' He). split; [reflexivity|discriminate].
+    + rewrite (src_current m' Hc). split; [reflexivity|discriminate].
+    + split; [reflexivity|discriminate].
+    + apply (src_sig m' P Q), H.
+  - intros f H. cbn [app In] in H.
+    destruct f; try (apply (spec_sig_out m m' P Q); [exact Hps|intro X; apply H; auto]);
+      cbn [field_spec c_m c_peers c_parent]; try congruence; try (exfalso; apply H; auto; fail).
+Qed.
+Lemma frame_phase m m' P Q : me m' = me m -> ps m' = ps m -> staging m' = staging m ->
+  current m' = current m -> frame m m' P Q (call_fields m' PPhaseChanged).
+Proof.
+  intros Hme Hps Hs Hc. cbn [call_fields]. split.
+  - intros f [<-|[]]. split; [reflexivity|discriminate].
+  - intros f H. cbn [In] in H.
+    destruct f; cbn [field_spec c_m c_peers c_parent]; unfold stg_value, sig_value, nsigs; try congruence.
+    + exfalso. apply H. auto.
+    + rewrite Hps, Hs. reflexivity.
+    + rewrite Hs. reflexivity.
+Qed.
+Lemma frame_sig m m' P Q i0 t t' : me m' = me m -> ps m' = ps m -> ph m' = ph m -> current m' = current m ->
+  staging m = Some t -> staging m' = Some t' -> tx_st t' = tx_st t ->
+  (N.to_nat i0 < length (tx_sigs t))%nat -> length (tx_sigs t) = nsigs m ->
+  (forall j, j <> N.to_nat i0 -> nth_error (tx_sigs t') j = nth_error (tx_sigs t) j) ->
+  frame m m' P Q (call_fields m' (PSigAdded i0)).
+Proof.
+  intros Hme Hps Hph Hc Hs Hs' Hst Hlt Hlen Hnth.
+  assert (En : nsigs m' = nsigs m) by (unfold nsigs; rewrite Hps; reflexivity).
+  cbn [call_fields]. split.
+  - intros f [<-|[]]. cbn [src_field field_spec c_m]. rewrite N.eqb_refl, En.
+    replace (i0 <? N.of_nat (nsigs m)) with true by lia. cbn [andb]. split; [reflexivity|discriminate].
+  - intros f H. cbn [In] in H.
+    destruct f; cbn [field_spec c_m c_peers c_parent]; unfold stg_value; try congruence.
+    + (* FSig *) rewrite En.
+      destruct ((w =? sig_width (N.of_nat (nsigs m))) && (i <? N.of_nat (nsigs m))) eqn:E; [|reflexivity].
+      apply andb_true_iff in E as [E1 E2]. f_equal. unfold sig_value. rewrite Hs, Hs'.
+      rewrite Hnth; [reflexivity|]. intro X. apply H. left. f_equal; [rewrite En; lia|lia].
+    + (* FStaging *) rewrite Hs, Hs', Hst. reflexivity.
+Qed.
+
+Lemma chan_eta c : mkChan (c_m c) (c_peers c) (c_parent c) = c.
+Proof. destruct c; reflexivity. Qed.
+
+Lemma spec_chan_put W id c' id' f :
+  spec_chan (sput bytes_cmp id c' W) id' f = if bytes_eqb id' id then field_spec c' f else spec_chan W id' f.
+Proof. unfold spec_chan. rewrite wfind_put. destruct (bytes_eqb id' id); reflexivity. Qed.
+Lemma spec_peer_put W id c' p id' :
+  spec_peer (sput bytes_cmp id c' W) p id' =
+  if bytes_eqb id' id then (if bytes_mem p (c_peers c') then Some VEmpty else None) else spec_peer W p id'.
+Proof. unfold spec_peer. rewrite wfind_put. destruct (bytes_eqb id' id); reflexivity. Qed.
+
+Lemma rep_single W s id c m' fs a : Rep W s -> wfind id W = Some c -> chan_id m' = id ->
+  put_fields m' fs = Some a -> frame (c_m c) m' (c_peers c) (c_parent c) fs ->
+  Rep (sput bytes_cmp id (mkChan m' (c_peers c) (c_parent c)) W) (apply_atomic s a).
+Proof.
+  intros [[S C] RP] Hc Hid Hput [F3 F2]. split; [split|].
+  - apply sorted_apply_atomic, S.
+  - intros id' f. rewrite find_apply_atomic by exact S. rewrite C, spec_chan_put.
+    rewrite (eff_put_fields m' fs a id' f _ Hput), Hid.
+    destruct (bytes_eqb id' id) eqn:E; [|reflexivity]. apply bytes_eqb_eq in E. subst id'.
+    destruct (in_dec field_dec f fs) as [Hin|Hnin].
+    + apply F3, Hin.
+    + unfold spec_chan. rewrite Hc. rewrite (F2 f Hnin), chan_eta. reflexivity.
+  - intros p id'. rewrite find_apply_atomic by exact S. rewrite RP, spec_peer_put.
+    rewrite (eff_put_fields_peer m' fs a p id' _ Hput). cbn [c_peers].
+    destruct (bytes_eqb id' id) eqn:E; [|reflexivity]. apply bytes_eqb_eq in E. subst id'.
+    unfold spec_peer. rewrite Hc. reflexivity.
+Qed.
+
+Lemma put_fields_frame_ok m m' P Q fs : frame m m' P Q fs -> exists a, put_fields m' fs = Some a.
+Proof. intros [F3 _]. apply put_fields_ok. intros f Hf. apply F3, Hf. Qed.
+
+(* a machine step with its persister call, for the four calls that write one batch / one put *)
+Lemma step_frame m o P Q : Inv m -> stg_enc m -> op_ok o = true -> okout (snd (step m o)) = true ->
+  single_call (call_of m o) = true ->
+  frame m (fst (step m o)) P Q (call_fields (fst (step m o)) (call_of m o)).
+Proof.
+  intros I He Hop Hok Hs. destruct (step_me_ps m o) as [Hme Hps].
+  pose proof (stg_enc_step m o He Hop) as He'.
+  destruct (call_of m o) eqn:Ec; try discriminate Hs.
+  - apply frame_staged; auto. apply step_staged_frame, Ec.
+  - destruct (step_sig_frame m o i Ec Hok) as [Hph [Hc [t [t' [Hst [Hst' [Hs1 [Hlt Hnth]]]]]]]].
+    eapply frame_sig; eauto. destruct (inv_staging m I t Hst) as [L _]. exact L.
+  - apply frame_enabled; auto. apply step_enabled_enc; auto.
+  - destruct (step_phase_frame m o Ec) as [H1 H2]. apply frame_phase; auto.
+Qed.
+
+(* ====================================================================== *)
+(* H. histories and crash points                                           *)
+(* ====================================================================== *)
+Definition good (W : world) (s : store) : Prop := wfW W /\ Rep W s.
+Definition wop_ok (o : wop) : bool := match o with WCreate _ _ _ _ => true | WOp _ o => op_ok o end.
+
+Lemma wfW_put W id c : wfW W -> wf_chan id c -> wfW (sput bytes_cmp id c W).
+Proof.
+  intros [S H] Hc. split; [apply (sorted_put bytes_cmp bytes_ord), S|].
+  intros id' c'. rewrite wfind_put. destruct (bytes_eqb id' id) eqn:E.
+  - intro X. injection X as <-. apply bytes_eqb_eq in E. subst id'. exact Hc.
+  - apply H.
+Qed.
+Lemma wfW_del W id : wfW W -> wfW (sdel bytes_cmp id W).
+Proof.
+  intros [S H]. split; [apply (sorted_del bytes_cmp), S|].
+  intros id' c'. rewrite wfind_del by exact S. destruct (bytes_eqb id' id); [discriminate|apply H].
+Qed.
+
+Lemma good_noop W s id c : good W s -> wfind id W = Some c -> good (sput bytes_cmp id c W) s.
+Proof.
+  intros [HW [[S C] RP]] Hc. split; [apply wfW_put; [exact HW|apply (proj2 HW), Hc]|].
+  split; [split; [exact S|]|].
+  - intros id' f. rewrite C, spec_chan_put. destruct (bytes_eqb id' id) eqn:E; [|reflexivity].
+    apply bytes_eqb_eq in E. subst id'. unfold spec_chan. rewrite Hc. reflexivity.
+  - intros p id'. rewrite RP, spec_peer_put. destruct (bytes_eqb id' id) eqn:E; [|reflexivity].
+    apply bytes_eqb_eq in E. subst id'. unfold spec_peer. rewrite Hc. reflexivity.
+Qed.
+
+(* ---- creation ---- *)
+Lemma stg_enc_new p idx : stg_enc (new_machine p idx).
+Proof. intros t H. discriminate H. Qed.
+Lemma wf_chan_new p idx peers parent : wf_chan (mp_id p) (mkChan (new_machine p idx) peers parent).
+Proof. split; [reflexivity|split; [apply Inv_new|apply stg_enc_new]]. Qed.
+
+Definition create_fields (m : mach) : list field :=
+  [FCurrent; FIndex; FParams; FPhase; FStaging] ++ sig_fields (nsigs m).
+Lemma create_src m P Q f : staging m = None -> current m = None -> In f (create_fields m) ->
+  src_field m f = field_spec (mkChan m P Q) f /\ src_field m f <> None.
+Proof.
+  intros Hs Hc [<-|[<-|[<-|[<-|[<-|H]]]]]; cbn [src_field field_spec c_m];
+    unfold stg_value; rewrite ?Hs, ?Hc; try (split; [reflexivity|discriminate]).
+  apply (src_sig m P Q), H.
+Qed.
+Lemma create_other m P Q f : ~ In f (create_fields m) -> f <> FParent -> f <> FPeers ->
+  field_spec (mkChan m P Q) f = None.
+Proof.
+  intros H H1 H2. unfold create_fields in H. cbn [app In] in H.
+  destruct f; try contradiction; try (exfalso; apply H; auto 10; fail).
+  cbn [field_spec c_m].
+  destruct ((w =? sig_width (N.of_nat (nsigs m))) && (i <? N.of_nat (nsigs m))) eqn:E; [|reflexivity].
+  exfalso. apply H. do 5 right. apply In_sig_fields. apply andb_true_iff in E as [E1 E2]. split; lia.
+Qed.
+
+Lemma eff_peer_puts q id' (peers : list bytes) id init :
+  eff (KPeer q id') (map (fun p => WPut (KPeer p id) VEmpty) peers) init =
+  if bytes_eqb id' id && bytes_mem q peers then Some VEmpty else init.
+Proof.
+  destruct (bytes_eqb id' id && bytes_mem q peers) eqn:E.
+  - apply andb_true_iff in E as [E1 E2]. apply bytes_eqb_eq in E1. apply bytes_mem_In in E2. subst id'.
+    apply eff_in.
+    + exists (WPut (KPeer q id) VEmpty). split; [apply in_map_iff; eauto|reflexivity].
+    + intros w Hw _. apply in_map_iff in Hw as [p [<- _]]. reflexivity.
+  - apply eff_notin. intros w Hw Hk. apply in_map_iff in Hw as [p [<- Hp]]. cbn [wr_key] in Hk.
+    injection Hk as -> ->. rewrite bytes_eqb_refl in E. cbn [andb] in E.
+    apply bytes_mem_In in Hp. congruence.
+Qed.
+Lemma eff_peer_dels q id' (peers : list bytes) id init :
+  eff (KPeer q id') (map (fun p => WDel (KPeer p id)) peers) init =
+  if bytes_eqb id' id && bytes_mem q peers then None else init.
+Proof.
+  destruct (bytes_eqb id' id && bytes_mem q peers) eqn:E.
+  - apply andb_true_iff in E as [E1 E2]. apply bytes_eqb_eq in E1. apply bytes_mem_In in E2. subst id'.
+    apply eff_in.
+    + exists (WDel (KPeer q id)). split; [apply in_map_iff; eauto|reflexivity].
+    + intros w Hw _. apply in_map_iff in Hw as [p [<- _]]. reflexivity.
+  - apply eff_notin. intros w Hw Hk. apply in_map_iff in Hw as [p [<- Hp]]. cbn [wr_key] in Hk.
+    injection Hk as -> ->. rewrite bytes_eqb_refl in E. cbn [andb] in E.
+    apply bytes_mem_In in Hp. congruence.
+Qed.
+Lemma eff_chan_on_peer_writes id' f (l : list bytes) (mk : bytes -> wr) init :
+  (forall p, exists q i, wr_key (mk p) = KPeer q i) -> eff (KChan id' f) (map mk l) init = init.
+Proof.
+  intro H. apply eff_notin. intros w Hw Hk. apply in_map_iff in Hw as [p [<- _]].
+  destruct (H p) as [q [i E]]. congruence.
+Qed.
+
+Lemma create_step W s p idx peers parent a1 :
+  good W s -> wfind (mp_id p) W = None ->
+  put_fields (new_machine p idx) (create_fields (new_machine p idx)) = Some a1 ->
+  let id := mp_id p in
+  let c0 := mkChan (new_machine p idx) peers parent in
+  let W' := sput bytes_cmp id c0 W in
+  let b1 := a1 ++ [WPut (KChan id FParent) (VParent parent); WPut (KChan id FPeers) (VPeers peers)] in
+  let b2 := map (fun q => WPut (KPeer q id) VEmpty) peers in
+  RepC W' (apply_atomic s b1) /\ good W' (apply_atomic (apply_atomic s b1) b2).
+Proof.
+  intros [HW [[S C] RP]] Hnone Hput id c0 W' b1 b2.
+  set (m0 := new_machine p idx) in *. change (wfind id W = None) in Hnone.
+  assert (S1 : ksorted (apply_atomic s b1)) by (apply sorted_apply_atomic, S).
+  assert (C1 : forall id' f, kfind (KChan id' f) (apply_atomic s b1) = spec_chan W' id' f).
+  { intros id' f. rewrite find_apply_atomic by exact S. unfold b1. rewrite eff_app, C.
+    unfold W'. rewrite spec_chan_put. rewrite (eff_put_fields m0 _ a1 id' f _ Hput).
+    change (chan_id m0) with id.
+    destruct (bytes_eqb id' id) eqn:E.
+    - apply bytes_eqb_eq in E. subst id'. unfold spec_chan at 1. rewrite Hnone.
+      rewrite !eff_cons. cbn [eff fold_left wr_key wr_res]. rewrite !kc_same. unfold c0.
+      destruct (in_dec field_dec f (create_fields m0)) as [Hin|Hnin].
+      + destruct (create_src m0 peers parent f eq_refl eq_refl Hin) as [E1 E2].
+        assert (f <> FParent /\ f <> FPeers) as [N1 N2].
+        { unfold create_fields in Hin. cbn [app In] in Hin. split; intros ->;
+            repeat (destruct Hin as [Hin|Hin]; [discriminate Hin|]);
+            apply In_sig_fields_inv in Hin as [w [i X]]; discriminate X. }
+        destruct (field_cmp f FParent) eqn:X1; [apply (ol_eq field_cmp field_ord) in X1; contradiction| |];
+          (destruct (field_cmp f FPeers) eqn:X2; [apply (ol_eq field_cmp field_ord) in X2; contradiction| |]);
+          exact E1.
+      + destruct (field_dec f FParent) as [->|N1]; [reflexivity|].
+        destruct (field_dec f FPeers) as [->|N2]; [reflexivity|].
+        rewrite (create_other m0 peers parent f Hnin N1 N2).
+        destruct (field_cmp f FParent) eqn:X1; [apply (ol_eq field_cmp field_ord) in X1; contradiction| |];
+          (destruct (field_cmp f FPeers) eqn:X2; [apply (ol_eq field_cmp field_ord) in X2; contradiction| |]);
+          reflexivity.
+    - apply eff_notin. intros w [<-|[<-|[]]] Hk; cbn [wr_key] in Hk; injection Hk as Hk _;
+        rewrite Hk, bytes_eqb_refl in E; discriminate. }
+  assert (P1 : forall q id', kfind (KPeer q id') (apply_atomic s b1) = spec_peer W q id').
+  { intros q id'. rewrite find_apply_atomic by exact S. unfold b1. rewrite eff_app, RP.
+    rewrite (eff_put_fields_peer m0 _ a1 q id' _ Hput). apply eff_notin.
+    intros w [<-|[<-|[]]] Hk; discriminate Hk. }
+  split; [split; assumption|]. split.
+  - apply wfW_put; [exact HW|apply wf_chan_new].
+  - split; [split; [apply sorted_apply_atomic, S1|]|].
+    + intros id' f. rewrite find_apply_atomic by exact S1. rewrite C1.
+      apply eff_chan_on_peer_writes. intro q. cbn [wr_key]. eauto.
+    + intros q id'. rewrite find_apply_atomic by exact S1. rewrite P1. unfold b2.
+      rewrite eff_peer_puts. unfold W'. rewrite spec_peer_put. cbn [c_peers c0].
+      destruct (bytes_eqb id' id) eqn:E; cbn [andb]; [|reflexivity].
+      apply bytes_eqb_eq in E. subst id'. unfold spec_peer. rewrite Hnone.
+      destruct (bytes_mem q peers); reflexivity.
+Qed.
+
+(* ---- removal ---- *)
+Definition remove_fields (n : nat) : list field :=
+  [FCurrent; FIndex; FParams; FParent; FPeers; FPhase; FStaging] ++ sig_fields n.
+Lemma remove_other c f : ~ In f (remove_fields (nsigs (c_m c))) -> field_spec c f = None.
+Proof.
+  intro H. unfold remove_fields in H. cbn [app In] in H.
+  destruct f; try (exfalso; apply H; auto 10; fail).
+  cbn [field_spec].
+  destruct ((w =? sig_width (N.of_nat (nsigs (c_m c)))) && (i <? N.of_nat (nsigs (c_m c)))) eqn:E; [|reflexivity].
+  exfalso. apply H. do 7 right. apply In_sig_fields. apply andb_true_iff in E as [E1 E2]. split; lia.
+Qed.
+Lemma eff_chan_dels id' f id (fs : list field) init :
+  eff (KChan id' f) (map (fun g => WDel (KChan id g)) fs) init =
+  if bytes_eqb id' id then (if in_dec field_dec f fs then None else init) else init.
+Proof.
+  destruct (bytes_eqb id' id) eqn:E.
+  - apply bytes_eqb_eq in E. subst id'. destruct (in_dec field_dec f fs) as [Hin|Hnin].
+    + apply eff_in.
+      * exists (WDel (KChan id f)). split; [apply in_map_iff; eauto|reflexivity].
+      * intros w Hw _. apply in_map_iff in Hw as [g [<- _]]. reflexivity.
+    + apply eff_notin. intros w Hw Hk. apply in_map_iff in Hw as [g [<- Hg]]. cbn [wr_key] in Hk.
+      injection Hk as ->. contradiction.
+  - apply eff_notin. intros w Hw Hk. apply in_map_iff in Hw as [g [<- Hg]]. cbn [wr_key] in Hk.
+    injection Hk as Hk _. rewrite Hk, bytes_eqb_refl in E. discriminate.
+Qed.
+Lemma spec_chan_del W id id' f : wsorted W ->
+  spec_chan (sdel bytes_cmp id W) id' f = if bytes_eqb id' id then None else spec_chan W id' f.
+Proof. intro S. unfold spec_chan. rewrite wfind_del by exact S. destruct (bytes_eqb id' id); reflexivity. Qed.
+Lemma spec_peer_del W id p id' : wsorted W ->
+  spec_peer (sdel bytes_cmp id W) p id' = if bytes_eqb id' id then None else spec_peer W p id'.
+Proof. intro S. unfold spec_peer. rewrite wfind_del by exact S. destruct (bytes_eqb id' id); reflexivity. Qed.
+
+Lemma remove_step W s id c :
+  good W s -> wfind id W = Some c ->
+  let W' := sdel bytes_cmp id W in
+  let d1 := map (fun f => WDel (KChan id f)) (remove_fields (nsigs (c_m c))) in
+  let d2 := map (fun q => WDel (KPeer q id)) (c_peers c) in
+  RepC W' (apply_atomic s d1) /\ good W' (apply_atomic (apply_atomic s d1) d2).
+Proof.
+  intros [HW [[S C] RP]] Hc W' d1 d2. pose proof (proj1 HW) as SW.
+  assert (S1 : ksorted (apply_atomic s d1)) by (apply sorted_apply_atomic, S).
+  assert (C1 : forall id' f, kfind (KChan id' f) (apply_atomic s d1) = spec_chan W' id' f).
+  { intros id' f. rewrite find_apply_atomic by exact S. unfold d1, W'.
+    rewrite eff_chan_dels, C, spec_chan_del by exact SW.
+    destruct (bytes_eqb id' id) eqn:E; [|reflexivity]. apply bytes_eqb_eq in E. subst id'.
+    destruct (in_dec field_dec f (remove_fields (nsigs (c_m c)))) as [Hin|Hnin]; [reflexivity|].
+    unfold spec_chan. rewrite Hc. apply remove_other, Hnin. }
+  assert (P1 : forall q id', kfind (KPeer q id') (apply_atomic s d1) = spec_peer W q id').
+  { intros q id'. rewrite find_apply_atomic by exact S. rewrite RP. apply eff_notin.
+    intros w Hw Hk. apply in_map_iff in Hw as [g [<- _]]. discriminate Hk. }
+  split; [split; assumption|]. split; [apply wfW_del, HW|].
+  split; [split; [apply sorted_apply_atomic, S1|]|].
+  - intros id' f. rewrite find_apply_atomic by exact S1. rewrite C1.
+    apply eff_chan_on_peer_writes. intro q. cbn [wr_key]. eauto.
+  - intros q id'. rewrite find_apply_atomic by exact S1. rewrite P1. unfold d2, W'.
+    rewrite eff_peer_dels, spec_peer_del by exact SW.
+    destruct (bytes_eqb id' id) eqn:E; cbn [andb]; [|reflexivity].
+    apply bytes_eqb_eq in E. subst id'. unfold spec_peer. rewrite Hc.
+    destruct (bytes_mem q (c_peers c)); reflexivity.
+Qed.
+
+(* ChannelRemoved finds the parameters and the peers in the store *)
+Lemma chan_removed_ok W s id c : Rep W s -> wfind id W = Some c ->
+  chan_removed s id =
+  Some [ map (fun f => WDel (KChan id f)) (remove_fields (nsigs (c_m c)));
+         map (fun q => WDel (KPeer q id)) (c_peers c) ].
+Proof.
+  intros [[S C] _] Hc. unfold chan_removed. rewrite !C. unfold spec_chan. rewrite Hc.
+  cbn [field_spec]. reflexivity.
+Qed.
+
+(* ---- one step of a history, with all its crash points ---- *)
+Definition stores_after (s : store) (ws : list atomic) (k : nat) : store := apply_atomics s (firstn k ws).
+
+Lemma single_not_withdrawn m o x : single_call (call_of m o) = true -> is_withdrawn_ok o x = false.
+Proof. destruct o; cbn; try reflexivity; discriminate. Qed.
+Lemma none_not_withdrawn m o x : call_of m o = PNone -> is_withdrawn_ok o x = false.
+Proof. destruct o; cbn; try reflexivity; discriminate. Qed.
+Lemma removed_is_withdrawn m o : call_of m o = PRemoved -> o = OSetWithdrawn.
+Proof. destruct o; cbn; try discriminate; reflexivity. Qed.
+Lemma fail_not_withdrawn o x : okout x = false -> is_withdrawn_ok o x = false.
+Proof. destruct o, x; cbn; try reflexivity; discriminate. Qed.
+Lemma call_cases c : single_call c = true \/ c = PRemoved \/ c = PNone.
+Proof. destruct c; cbn; auto. Qed.
+
+Theorem wstep_crash W s o W' x ws :
+  good W s -> wop_ok o = true -> wstep W s o = (W', x, ws) ->
+  good W' (apply_atomics s ws) /\
+  forall k, (k <= length ws)%nat -> RepC W (stores_after s ws k) \/ RepC W' (stores_after s ws k).
+Proof.
+  intros G Hok Hstep. pose proof G as [HW [RC RP]]. destruct o as [p idx peers parent|id o]; cbn [wstep] in Hstep.
+  - (* creation *)
+    destruct (wfind (mp_id p) W) as [c|] eqn:Hf.
+    + injection Hstep as <- <- <-. split; [exact G|]. intros [|k] Hk; [left; exact RC|cbn in Hk; lia].
+    + destruct (put_fields_ok (new_machine p idx) (create_fields (new_machine p idx))) as [a1 Ha1].
+      { intros f Hin. apply (proj2 (create_src (new_machine p idx) peers parent f eq_refl eq_refl Hin)). }
+      unfold chan_created in Hstep. fold (create_fields (new_machine p idx)) in Hstep. rewrite Ha1 in Hstep.
+      injection Hstep as <- <- <-.
+      destruct (create_step W s p idx peers parent a1 G Hf Ha1) as [R1 G2].
+      split; [exact G2|]. intros [|[|[|k]]] Hk; try (cbn [length] in Hk; lia).
+      * left. exact RC.
+      * right. exact R1.
+      * right. exact (proj1 (proj2 G2)).
+  - (* an operation on a live channel *)
+    cbn [wop_ok] in Hok.
+    destruct (wfind id W) as [c|] eqn:Hf.
+    2:{ injection Hstep as <- <- <-. split; [exact G|]. intros [|k] Hk; [left; exact RC|cbn in Hk; lia]. }
+    pose proof (proj2 HW id c Hf) as [Hid [Inv0 Henc]].
+    unfold wrap_step in Hstep. destruct (step (c_m c) o) as [m' x0] eqn:Est.
+    assert (Em : m' = fst (step (c_m c) o)) by (rewrite Est; reflexivity).
+    assert (Ex : x0 = snd (step (c_m c) o)) by (rewrite Est; reflexivity).
+    assert (Hnoop : forall xx, is_withdrawn_ok o xx = false -> m' = c_m c ->
+              (if is_withdrawn_ok o xx then (sdel bytes_cmp id W, xx, @nil atomic)
+               else (sput bytes_cmp id (mkChan m' (c_peers c) (c_parent c)) W, xx, [])) = (W', x, ws) ->
+              good W' (apply_atomics s ws) /\
+              forall k, (k <= length ws)%nat -> RepC W (stores_after s ws k) \/ RepC W' (stores_after s ws k)).
+    { intros xx Hw -> H. rewrite Hw, chan_eta in H. injection H as <- <- <-.
+      split; [apply good_noop; assumption|]. intros [|k] Hk; [left; exact RC|cbn in Hk; lia]. }
+    destruct (okout x0) eqn:Hx.
+    2:{ (* the machine refused: nothing is written *)
+      assert (m' = c_m c).
+      { rewrite Em. apply step_fail_noop. rewrite <- Ex. destruct x0; try discriminate Hx; auto. }
+      destruct x0; try discriminate Hx; [apply (Hnoop ERR)|apply (Hnoop PANIC)];
+        first [apply fail_not_withdrawn; reflexivity|assumption|exact Hstep]. }
+    assert (Hstep' : (let '(m1, x1, ws1) :=
+                        match persist s m' (call_of (c_m c) o) with
+                        | Some ws0 => (m', x0, ws0) | None => (m', ERR, []) end in
+                      if is_withdrawn_ok o x1 then (sdel bytes_cmp id W, x1, ws1)
+                      else (sput bytes_cmp id (mkChan m1 (c_peers c) (c_parent c)) W, x1, ws1)) = (W', x, ws))
+      by (destruct x0; try discriminate Hx; exact Hstep).
+    clear Hstep.
+    destruct (call_cases (call_of (c_m c) o)) as [Hs|[Hr|Hn]].
+    + (* one batch / one put *)
+      pose proof (step_frame (c_m c) o (c_peers c) (c_parent c) Inv0 Henc Hok) as F.
+      rewrite <- Ex, <- Em in F. specialize (F Hx Hs).
+      destruct (put_fields_frame_ok _ _ _ _ _ F) as [a Ha].
+      rewrite (persist_single s m' _ Hs), Ha in Hstep'. cbn [option_map] in Hstep'.
+      rewrite (single_not_withdrawn _ _ x0 Hs) in Hstep'. injection Hstep' as <- <- <-.
+      assert (Hid' : chan_id m' = id).
+      { unfold chan_id. rewrite Em, (proj2 (step_me_ps (c_m c) o)). exact Hid. }
+      pose proof (rep_single W s id c m' _ a (conj RC RP) Hf Hid' Ha F) as R'.
+      assert (HW' : wfW (sput bytes_cmp id (mkChan m' (c_peers c) (c_parent c)) W)).
+      { apply wfW_put; [exact HW|]. split; [exact Hid'|]. cbn [c_m]. rewrite Em. split.
+        - apply Inv_step, Inv0.
+        - apply stg_enc_step; assumption. }
+      split; [split; [exact HW'|exact R']|].
+      intros [|[|k]] Hk; try (cbn [length] in Hk; lia); [left; exact RC|right; exact (proj1 R')].
+    + (* SetWithdrawn: the channel is removed *)
+      pose proof (removed_is_withdrawn _ _ Hr) as ->. rewrite Hr in Hstep'. cbn [persist] in Hstep'.
+      assert (Hid' : chan_id m' = id).
+      { unfold chan_id. rewrite Em, (proj2 (step_me_ps (c_m c) OSetWithdrawn)). exact Hid. }
+      rewrite Hid', (chan_removed_ok W s id c (conj RC RP) Hf) in Hstep'.
+      assert (x0 = OK).
+      { rewrite Ex in *. unfold step, simple_transition in *. destruct (expect (c_m c) Withdrawing Withdrawn); cbn [snd] in *; [reflexivity|discriminate Hx]. }
+      rewrite H in Hstep'. cbn [is_withdrawn_ok] in Hstep'. injection Hstep' as <- <- <-.
+      destruct (remove_step W s id c G Hf) as [R1 G2].
+      split; [exact G2|]. intros [|[|[|k]]] Hk; try (cbn [length] in Hk; lia).
+      * left. exact RC.
+      * right. exact R1.
+      * right. exact (proj1 (proj2 G2)).
+    + (* CheckUpdate: not persisted *)
+      rewrite Hn in Hstep'. cbn [persist] in Hstep'.
+      eapply Hnoop; [apply (none_not_withdrawn _ _ _ Hn)| |exact Hstep'].
+      rewrite Em. apply step_none_frame, Hn.
+Qed.
+
+(* ====================================================================== *)
+(* I. the properties                                                       *)
+(* ====================================================================== *)
+Lemma good_empty : good [] [].
+Proof.
+  split; [split; [exact I|intros id c H; discriminate H]|].
+  split; [split; [exact I|intros; reflexivity]|intros p id; reflexivity].
+Qed.
+Lemma good_wnext Ws o : good (fst Ws) (snd Ws) -> wop_ok o = true ->
+  good (fst (wnext Ws o)) (snd (wnext Ws o)).
+Proof.
+  intros G Hok. unfold wnext. destruct (wstep (fst Ws) (snd Ws) o) as [[W' x] ws] eqn:E.
+  cbn [fst snd]. apply (wstep_crash _ _ _ _ _ _ G Hok E).
+Qed.
+Lemma good_fold h Ws : good (fst Ws) (snd Ws) -> forallb wop_ok h = true ->
+  good (fst (fold_left wnext h Ws)) (snd (fold_left wnext h Ws)).
+Proof.
+  revert Ws. induction h as [|o h IH]; intros Ws G H; [exact G|].
+  cbn [forallb] in H. apply andb_true_iff in H as [H1 H2]. cbn [fold_left].
+  apply IH; [apply good_wnext; assumption|exact H2].
+Qed.
+(* every history of well-formed operations keeps the store equal to the image of the live channels *)
+Lemma good_run h : forallb wop_ok h = true -> good (fst (wrun h)) (snd (wrun h)).
+Proof. intro H. unfold wrun. apply good_fold; [exact good_empty|exact H]. Qed.
+
+Lemma stores_after_all s ws : stores_after s ws (length ws) = apply_atomics s ws.
+Proof. unfold stores_after. rewrite firstn_all. reflexivity. Qed.
+
+(* C10: restoring at any crash point of the next operation *)
+Lemma crash_restore W s o W' x ws : good W s -> wop_ok o = true -> wstep W s o = (W', x, ws) ->
+  forall k, (k <= length ws)%nat -> forall id,
+    (restore_chan (stores_after s ws k) id = view W id \/
+     restore_chan (stores_after s ws k) id = view W' id) /\
+    (k = length ws -> restore_chan (stores_after s ws k) id = view W' id).
+Proof.
+  intros G Hok E k Hk id. destruct (wstep_crash _ _ _ _ _ _ G Hok E) as [[HW' R'] Hc]. split.
+  - destruct (Hc k Hk) as [R|R]; [left|right]; apply restore_chan_view; auto. apply G.
+  - intros ->. rewrite stores_after_all. apply restore_chan_view; [apply R'|exact HW'].
+Qed.
+
+(* no signature of an earlier staged state: every signature of a snapshot verifies for its staged state *)
+Definition sigs_fresh (rc : rchan) : Prop :=
+  forall i g, nth_error (rc_sigs rc) i = Some (Some g) ->
+    exists st a, rc_stg rc = Some st /\ nth_error (mp_parts (rc_params rc)) i = Some a /\
+                 verify_state a st g = Some true.
+Lemma snap_fresh id c : wf_chan id c -> sigs_fresh (snap_of c).
+Proof.
+  intros [_ [Iv _]] i g H. unfold snap_of in *. cbn [rc_sigs rc_stg rc_params] in *.
+  unfold staged_sigs in H. destruct (staging (c_m c)) as [t|] eqn:E.
+  - destruct (inv_staging _ Iv t E) as [_ Hs]. specialize (Hs i (Some g) H). cbn [slot_ok] in Hs.
+    destruct Hs as [a [Ha Hv]]. exists (tx_st t), a. cbn [option_map]. auto.
+  - apply nth_error_repeat in H. discriminate H.
+Qed.
+Lemma view_fresh W id rc : wfW W -> view W id = ROk rc -> sigs_fresh rc.
+Proof.
+  intros [_ H] E. unfold view in E. destruct (wfind id W) as [c|] eqn:Ec; [|discriminate].
+  injection E as <-. eapply snap_fresh, H, Ec.
+Qed.
+Lemma crash_no_stale W s o W' x ws : good W s -> wop_ok o = true -> wstep W s o = (W', x, ws) ->
+  forall k, (k <= length ws)%nat -> forall id rc,
+    restore_chan (stores_after s ws k) id = ROk rc -> sigs_fresh rc.
+Proof.
+  intros G Hok E k Hk id rc Hr.
+  destruct (wstep_crash _ _ _ _ _ _ G Hok E) as [[HW' _] _].
+  destruct (proj1 (crash_restore _ _ _ _ _ _ G Hok E k Hk id)) as [H|H]; rewrite H in Hr.
+  - eapply view_fresh; [apply G|exact Hr].
+  - eapply view_fresh; [exact HW'|exact Hr].
+Qed.
+
+(* C11: the key set *)
+Lemma in_keys_find k (s : store) : ksorted s -> (In k (map fst s) <-> exists v, kfind k s = Some v).
+Proof.
+  intro S. rewrite in_map_iff. split.
+  - intros [[k' v] [<- H]]. exists v. apply (sfind_in key_cmp key_ord); assumption.
+  - intros [v H]. exists (k, v). split; [reflexivity|]. apply (sfind_in key_cmp key_ord); assumption.
+Qed.
+Definition chan_keys (id : bytes) (c : chan) : list key :=
+  map fst (chan_kvs id c) ++ map fst (peer_kvs id c).
+Lemma in_chan_keys id c k : In k (chan_keys id c) <->
+  match k with
+  | KChan id' f => id' = id /\ field_spec c f <> None
+  | KPeer p id' => id' = id /\ In p (c_peers c)
+  end.
+Proof.
+  unfold chan_keys. rewrite in_app_iff. split.
+  - intros [H|H].
+    + apply in_map_iff in H as [[k' v] [<- H]]. cbn [fst]. pose proof (chan_kvs_keys _ _ _ H) as [f E].
+      cbn [fst] in E. subst k'. split; [reflexivity|].
+      apply (sfind_in key_cmp key_ord _ _ _ (sorted_chan_kvs id c)) in H. rewrite sfind_chan_kvs in H. congruence.
+    + unfold peer_kvs in H. rewrite map_map in H. cbn [fst] in H. apply in_map_iff in H as [p [<- Hp]]. auto.
+  - destruct k as [id' f|p id'].
+    + intros [-> H]. left. destruct (field_spec c f) as [v|] eqn:E; [|contradiction].
+      apply in_map_iff. exists (KChan id f, v). split; [reflexivity|].
+      apply (sfind_in key_cmp key_ord _ _ _ (sorted_chan_kvs id c)). rewrite sfind_chan_kvs. exact E.
+    + intros [-> H]. right. unfold peer_kvs. rewrite map_map. cbn [fst]. apply in_map_iff. eauto.
+Qed.
+Lemma keys_exact W s : Rep W s -> forall k,
+  In k (map fst s) <-> exists id c, wfind id W = Some c /\ In k (chan_keys id c).
+Proof.
+  intros [[S C] RP] k. rewrite (in_keys_find k s S). split.
+  - intros [v H]. destruct k as [id f|p id].
+    + rewrite C in H. unfold spec_chan in H. destruct (wfind id W) as [c|] eqn:E; [|discriminate].
+      exists id, c. split; [exact E|]. apply in_chan_keys. split; [reflexivity|congruence].
+    + rewrite RP in H. unfold spec_peer in H. destruct (wfind id W) as [c|] eqn:E; [|discriminate].
+      destruct (bytes_mem p (c_peers c)) eqn:M; [|discriminate].
+      exists id, c. split; [exact E|]. apply in_chan_keys. split; [reflexivity|apply bytes_mem_In, M].
+  - intros [id [c [E H]]]. apply in_chan_keys in H. destruct k as [id' f|p id']; destruct H as [-> H].
+    + rewrite C. unfold spec_chan. rewrite E. destruct (field_spec c f) as [v|]; [eauto|contradiction].
+    + rewrite RP. unfold spec_peer. rewrite E. apply bytes_mem_In in H. rewrite H. eauto.
+Qed.
+Lemma sorted_nodup_keys (s : store) : ksorted s -> NoDup (map fst s).
+Proof.
+  induction s as [|[k v] s IH]; intro S; [constructor|]. destruct S as [L S]. cbn [map fst]. constructor.
+  - intro H. apply in_map_iff in H as [[k' v'] [E H]]. cbn [fst] in E. subst k'.
+    unfold lb in L. rewrite Forall_forall in L. specialize (L _ H). cbn [fst] in L. rewrite kc_refl in L. discriminate.
+  - apply IH, S.
+Qed.
+
+(* C11: what a step changes in the registry *)
+Definition wop_id (o : wop) : bytes := match o with WCreate p _ _ _ => mp_id p | WOp id _ => id end.
+Lemma wstep_other W s o W' x ws b : wsorted W -> wstep W s o = (W', x, ws) -> b <> wop_id o ->
+  wfind b W' = wfind b W.
+Proof.
+  intros S E Hb. destruct o as [p idx peers parent|id o]; cbn [wstep wop_id] in *.
+  - destruct (wfind (mp_id p) W); [injection E as <- _ _; reflexivity|].
+    destruct (chan_created _ _ _); injection E as <- _ _; [|reflexivity].
+    rewrite wfind_put, bytes_eqb_neq by exact Hb. reflexivity.
+  - destruct (wfind id W) as [c|]; [|injection E as <- _ _; reflexivity].
+    destruct (wrap_step s (c_m c) o) as [[m' x0] ws0]. destruct (is_withdrawn_ok o x0); injection E as <- _ _.
+    + rewrite wfind_del, bytes_eqb_neq by assumption. reflexivity.
+    + rewrite wfind_put, bytes_eqb_neq by exact Hb. reflexivity.
+Qed.
+Lemma withdrawn_removed W s id W' ws : wsorted W ->
+  wstep W s (WOp id OSetWithdrawn) = (W', OK, ws) -> wfind id W' = None.
+Proof.
+  intros S E. cbn [wstep] in E. destruct (wfind id W) as [c|]; [|discriminate E].
+  destruct (wrap_step s (c_m c) OSetWithdrawn) as [[m' x0] ws0].
+  destruct x0; cbn [is_withdrawn_ok] in E; try discriminate E. injection E as <- _.
+  rewrite wfind_del, bytes_eqb_refl by exact S. reflexivity.
+Qed.
+
+(* ---------- the statements of Props/C10.v and Props/C11.v ---------- *)
+Lemma C10_crash_restore_l : forall h o,
+  forallb wop_ok h = true -> wop_ok o = true ->
+  let W := fst (wrun h) in let s := snd (wrun h) in
+  forall W' x ws, wstep W s o = (W', x, ws) ->
+  forall k, (k <= length ws)%nat -> forall id,
+    (restore_chan (apply_atomics s (firstn k ws)) id = view W id \/
+     restore_chan (apply_atomics s (firstn k ws)) id = view W' id) /\
+    (k = length ws -> restore_chan (apply_atomics s (firstn k ws)) id = view W' id).
+Proof.
+  intros h o Hh Ho W s W' x ws E k Hk id.
+  exact (crash_restore W s o W' x ws (good_run h Hh) Ho E k Hk id).
+Qed.
+Lemma C10_no_stale_l : forall h o,
+  forallb wop_ok h = true -> wop_ok o = true ->
+  let W := fst (wrun h) in let s := snd (wrun h) in
+  forall W' x ws, wstep W s o = (W', x, ws) ->
+  forall k, (k <= length ws)%nat -> forall id rc,
+    restore_chan (apply_atomics s (firstn k ws)) id = ROk rc -> sigs_fresh rc.
+Proof.
+  intros h o Hh Ho W s W' x ws E k Hk id rc.
+  exact (crash_no_stale W s o W' x ws (good_run h Hh) Ho E k Hk id rc).
+Qed.
+Lemma C10_invariant_l : forall h, forallb wop_ok h = true ->
+  Rep (fst (wrun h)) (snd (wrun h)) /\ wfW (fst (wrun h)).
+Proof. intros h Hh. destruct (good_run h Hh) as [A B]. split; assumption. Qed.
+
+Definition key_chan (k : key) : bytes := match k with KChan id _ => id | KPeer _ id => id end.
+
+Lemma C11_keys_exact_l : forall h, forallb wop_ok h = true ->
+  let W := fst (wrun h) in let s := snd (wrun h) in
+  NoDup (map fst s) /\
+  forall k, In k (map fst s) <-> exists id c, wfind id W = Some c /\ In k (chan_keys id c).
+Proof.
+  intros h Hh W s. destruct (good_run h Hh) as [HW R]. split.
+  - apply sorted_nodup_keys, R.
+  - apply keys_exact, R.
+Qed.
+Lemma C11_restore_all_l : forall h, forallb wop_ok h = true ->
+  let W := fst (wrun h) in let s := snd (wrun h) in
+  wsorted W /\ restore_all s = (map (fun ic => snap_of (snd ic)) W, EOk).
+Proof.
+  intros h Hh W s. destruct (good_run h Hh) as [HW R]. split; [apply HW|].
+  apply restore_all_spec; [apply R|exact HW].
+Qed.
+Lemma C11_restore_peer_l : forall h, forallb wop_ok h = true ->
+  let W := fst (wrun h) in let s := snd (wrun h) in
+  forall p, restore_peer s p =
+            (map (fun ic => snap_of (snd ic)) (filter (fun ic => bytes_mem p (c_peers (snd ic))) W), EOk).
+Proof. intros h Hh W s p. destruct (good_run h Hh) as [HW R]. apply (restore_peer_spec W s p R HW). Qed.
+Lemma C11_active_peers_l : forall h, forallb wop_ok h = true ->
+  let W := fst (wrun h) in let s := snd (wrun h) in
+  NoDup (active_peers s) /\
+  forall p, In p (active_peers s) <-> exists id c, wfind id W = Some c /\ In p (c_peers c).
+Proof.
+  intros h Hh W s. destruct (good_run h Hh) as [HW R]. split; [apply active_peers_nodup|].
+  intro p. apply active_peers_spec, R.
+Qed.
+Lemma C11_restore_chan_l : forall h, forallb wop_ok h = true ->
+  forall id, restore_chan (snd (wrun h)) id = view (fst (wrun h)) id.
+Proof. intros h Hh id. destruct (good_run h Hh) as [HW R]. apply restore_chan_view; [apply R|exact HW]. Qed.
+Lemma C11_restore_removed_fails_l : forall h id, forallb wop_ok h = true ->
+  let W := fst (wrun h) in let s := snd (wrun h) in
+  forall W' ws, wstep W s (WOp id OSetWithdrawn) = (W', OK, ws) ->
+  restore_chan (apply_atomics s ws) id = RNotFound /\
+  forall k, In k (map fst (apply_atomics s ws)) -> key_chan k <> id.
+Proof.
+  intros h id Hh W s W' ws E. pose proof (good_run h Hh) as G.
+  destruct (wstep_crash W s (WOp id OSetWithdrawn) W' OK ws G eq_refl E) as [[HW' R'] _].
+  pose proof (withdrawn_removed W s id W' ws (proj1 (proj1 G)) E) as Hn. split.
+  - rewrite (restore_chan_view W' _ id (proj1 R') HW'). unfold view. rewrite Hn. reflexivity.
+  - intros k Hk. apply (keys_exact W' _ R') in Hk as [id' [c [Ec Hin]]].
+    apply in_chan_keys in Hin. intro X.
+    assert (id' = id) by (destruct k; cbn [key_chan] in X; destruct Hin as [-> _]; exact X).
+    subst id'. congruence.
+Qed.
+Lemma C11_frame_l : forall h o, forallb wop_ok h = true -> wop_ok o = true ->
+  let W := fst (wrun h) in let s := snd (wrun h) in
+  forall W' x ws, wstep W s o = (W', x, ws) ->
+  forall b, b <> wop_id o -> forall k, (k <= length ws)%nat ->
+    restore_chan (apply_atomics s (firstn k ws)) b = restore_chan s b.
+Proof.
+  intros h o Hh Ho W s W' x ws E b Hb k Hk. pose proof (good_run h Hh) as G.
+  rewrite (restore_chan_view W s b (proj1 (proj2 G)) (proj1 G)).
+  assert (Ev : view W' b = view W b).
+  { unfold view. rewrite (wstep_other W s o W' x ws b (proj1 (proj1 G)) E Hb). reflexivity. }
+  destruct (proj1 (crash_restore W s o W' x ws G Ho E k Hk b)) as [H|H]; unfold stores_after in H; rewrite H; [reflexivity|exact Ev].
+Qed.
+
+(* ---------- the image as a function: Rep W s says s = image W ---------- *)
+Lemma put_all_atomic l s : put_all l s = apply_atomic s (map (fun e : entry => WPut (fst e) (snd e)) l).
+Proof.
+  revert s. induction l as [|e l IH]; intro s; [reflexivity|].
+  unfold put_all, apply_atomic in *. cbn [map fold_left apply_wr]. apply IH.
+Qed.
+Lemma Rep_image W : wsorted W -> Rep W (image W).
+Proof.
+  induction W as [|[id c] W IH]; intro S.
+  - apply good_empty.
+  - destruct S as [L S]. cbn [fst] in L. destruct (IH S) as [[S1 C1] P1].
+    cbn [image fold_right fst snd]. fold (image W). rewrite put_all_atomic.
+    set (a := map (fun e : entry => WPut (fst e) (snd e)) (chan_kvs id c ++ peer_kvs id c)).
+    assert (Ha : forall w, In w a -> exists k v, w = WPut k v /\ In (k, v) (chan_kvs id c ++ peer_kvs id c)).
+    { intros w Hw. apply in_map_iff in Hw as [[k v] [<- H]]. eauto. }
+    split; [split; [apply sorted_apply_atomic, S1|]|].
+    + intros id' f. rewrite find_apply_atomic by exact S1. rewrite C1. unfold spec_chan at 2. rewrite wfind_cons.
+      destruct (bytes_eqb id' id) eqn:E.
+      * apply bytes_eqb_eq in E. subst id'. unfold spec_chan. rewrite (wlb_notfound _ _ L).
+        destruct (field_spec c f) as [v|] eqn:Ef.
+        -- apply eff_in.
+           ++ exists (WPut (KChan id f) v). split; [|reflexivity]. apply in_map_iff. exists (KChan id f, v).
+              split; [reflexivity|]. apply in_or_app. left.
+              apply (sfind_in key_cmp key_ord _ _ _ (sorted_chan_kvs id c)). rewrite sfind_chan_kvs. exact Ef.
+           ++ intros w Hw Hk. destruct (Ha w Hw) as [k [v' [-> Hin]]]. cbn [wr_key wr_res] in *. subst k.
+              apply in_app_or in Hin as [Hin|Hin].
+              ** apply (sfind_in key_cmp key_ord _ _ _ (sorted_chan_kvs id c)) in Hin.
+                 rewrite sfind_chan_kvs in Hin. congruence.
+              ** unfold peer_kvs in Hin. apply in_map_iff in Hin as [p [X _]]. discriminate X.
+        -- apply eff_notin. intros w Hw Hk. destruct (Ha w Hw) as [k [v' [-> Hin]]]. cbn [wr_key] in Hk. subst k.
+           apply in_app_or in Hin as [Hin|Hin].
+           ** apply (sfind_in key_cmp key_ord _ _ _ (sorted_chan_kvs id c)) in Hin.
+              rewrite sfind_chan_kvs in Hin. congruence.
+           ** unfold peer_kvs in Hin. apply in_map_iff in Hin as [p [X _]]. discriminate X.
+      * apply eff_notin. intros w Hw Hk. destruct (Ha w Hw) as [k [v' [-> Hin]]]. cbn [wr_key] in Hk. subst k.
+        assert (id' = id); [|subst id'; rewrite bytes_eqb_refl in E; discriminate].
+        apply in_app_or in Hin as [Hin|Hin].
+        -- apply chan_kvs_keys in Hin as [f' X]. cbn [fst] in X. congruence.
+        -- unfold peer_kvs in Hin. apply in_map_iff in Hin as [p [X _]]. discriminate X.
+    + intros p id'. rewrite find_apply_atomic by exact S1. rewrite P1. unfold spec_peer at 2. rewrite wfind_cons.
+      destruct (bytes_eqb id' id) eqn:E.
+      * apply bytes_eqb_eq in E. subst id'. unfold spec_peer. rewrite (wlb_notfound _ _ L).
+        destruct (bytes_mem p (c_peers c)) eqn:M.
+        -- apply eff_in.
+           ++ exists (WPut (KPeer p id) VEmpty). split; [|reflexivity]. apply in_map_iff. exists (KPeer p id, VEmpty).
+              split; [reflexivity|]. apply in_or_app. right. unfold peer_kvs. apply in_map_iff.
+              exists p. split; [reflexivity|apply bytes_mem_In, M].
+           ++ intros w Hw Hk. destruct (Ha w Hw) as [k [v' [-> Hin]]]. cbn [wr_key wr_res] in *. subst k.
+              apply in_app_or in Hin as [Hin|Hin].
+              ** apply chan_kvs_keys in Hin as [f' X]. discriminate X.
+              ** unfold peer_kvs in Hin. apply in_map_iff in Hin as [q [X _]]. congruence.
+        -- apply eff_notin. intros w Hw Hk. destruct (Ha w Hw) as [k [v' [-> Hin]]]. cbn [wr_key] in Hk. subst k.
+           apply in_app_or in Hin as [Hin|Hin].
+           ** apply chan_kvs_keys in Hin as [f' X]. discriminate X.
+           ** unfold peer_kvs in Hin. apply in_map_iff in Hin as [q [X Hq]]. injection X as ->.
+              apply bytes_mem_In in Hq. congruence.
+      * apply eff_notin. intros w Hw Hk. destruct (Ha w Hw) as [k [v' [-> Hin]]]. cbn [wr_key] in Hk. subst k.
+        assert (id' = id); [|subst id'; rewrite bytes_eqb_refl in E; discriminate].
+        apply in_app_or in Hin as [Hin|Hin].
+        -- apply chan_kvs_keys in Hin as [f' X]. discriminate X.
+        -- unfold peer_kvs in Hin. apply in_map_iff in Hin as [q [X _]]. congruence.
+Qed.
+Lemma C10_store_eq_image_l : forall h, forallb wop_ok h = true -> snd (wrun h) = image (fst (wrun h)).
+Proof.
+  intros h Hh. destruct (good_run h Hh) as [HW R]. apply (Rep_unique (fst (wrun h))); [exact R|].
+  apply Rep_image, HW.
+Qed.
